@@ -71,6 +71,8 @@ Local Notation ms_rel := (CompileCorrect4Rel.ms_rel (g_all G) (x_ftab X) TL FS).
 Local Notation ms_inj := (CompileCorrect4Rel.ms_inj (g_all G) (x_ftab X) TL FS).
 Local Notation ms_len := (CompileCorrect4Rel.ms_len (g_all G) (x_ftab X) TL FS).
 Local Notation ms_fun := (CompileCorrect4Rel.ms_fun (g_all G) (x_ftab X) TL FS).
+Local Notation ms_fcl := (CompileCorrect4Rel.ms_fcl (g_all G) (x_ftab X) TL FS).
+Local Notation ms_fself := (CompileCorrect4Rel.ms_fself (g_all G) (x_ftab X) TL FS).
 Local Notation ms_vec := (CompileCorrect4Rel.ms_vec (g_all G) (x_ftab X) TL FS).
 Local Notation MS_closure := (CompileCorrect4Rel.MS_closure (g_all G) (x_ftab X) TL FS).
 Local Notation MS_run := (CompileCorrect4Rel.MS_run (g_all G) (x_ftab X) TL FS).
@@ -93,6 +95,8 @@ Definition print_body : list rinstr := std_body (1%nat, lib_math_print).
 Record prog_ok (prog : list rinstr) : Prop := {
   po_print : CompileCorrect4Base.code_at prog (faddr 13) print_body;
   po_top : forall k fd, nth_error (g_funcs G) k = Some fd -> nth_error (g_all G) k = Some (KTop, fd);
+  po_top_inv : forall k fd, nth_error (g_all G) k = Some (KTop, fd) -> nth_error (g_funcs G) k = Some fd;
+  po_find : forall k fd, nth_error (g_funcs G) k = Some fd -> find_func (fd_name fd) (g_funcs G) = Some fd;
   po_fidx : forall f kidx fd, nth_error (g_funcs G) kidx = Some fd ->
             fpos f (map fd_name (g_funcs G)) 0 = Some (0 + Z.of_nat kidx) ->
             Compile4.fidx FT f = Z.of_nat (nstd + kidx);
@@ -380,7 +384,7 @@ Proof. intros st v r st' H. unfold fresh in H. destruct (alloc st v). inv H. eau
 
 Definition expr_case (k : nat) (e : expr) : Prop :=
   forall env st r st', eval genv k env st e = (r, st') ->
-  forall sc, in_F lv sc e = true ->
+  forall sc, in_F (fc_self fc) lv sc e = true ->
   forall prog pc L ce s m,
     code_at prog pc (compile_expr fc L ce e) -> v_ip s = pc ->
     MS m st (v_heap s) -> v_out s = out st -> env_match_g fc (r_gp (v_fr s)) gl m env ce sc L (v_stk s) ->
@@ -391,7 +395,7 @@ Definition expr_spec (k : nat) : Prop := forall e, expr_case k e.
 (* the same for states with the registers `fr` of this section *)
 Definition expr_case_at (k : nat) (e : expr) : Prop :=
   forall env st r st', eval genv k env st e = (r, st') ->
-  forall sc, in_F lv sc e = true ->
+  forall sc, in_F (fc_self fc) lv sc e = true ->
   forall prog L ce ip stk h o m,
     code_at prog ip (compile_expr fc L ce e) ->
     MS m st h -> o = out st -> env_match m env ce sc L stk ->
@@ -412,7 +416,7 @@ Definition items_concl (prog : list rinstr) (s : vstate) (pc : nat) (code : list
 
 Definition items_spec (k : nat) : Prop :=
   forall items env st last r st', eval_items genv k env st items last = (r, st') ->
-  forall sc, items_F lv sc items = true ->
+  forall sc, items_F (fc_self fc) lv sc items = true ->
   forall prog pc L ce s m,
     code_at prog pc (compile_items fc L ce items) -> v_ip s = pc ->
     MS m st (v_heap s) -> v_out s = out st -> env_match_g fc (r_gp (v_fr s)) gl m env ce sc L (v_stk s) ->
@@ -420,7 +424,7 @@ Definition items_spec (k : nat) : Prop :=
 
 Definition items_spec_at (k : nat) : Prop :=
   forall items env st last r st', eval_items genv k env st items last = (r, st') ->
-  forall sc, items_F lv sc items = true ->
+  forall sc, items_F (fc_self fc) lv sc items = true ->
   forall prog L ce ip stk h o m,
     code_at prog ip (compile_items fc L ce items) ->
     MS m st h -> o = out st -> env_match m env ce sc L stk ->
@@ -793,7 +797,7 @@ Proof.
   simpl in HF. destruct l; try discriminate HF.
   apply andb_true_iff in HF; destruct HF as [Fx Fb].
   apply andb_true_iff in Fx; destruct Fx as [Fx Fsh].
-  assert (Fa : in_F lv sc (EVar x) = true) by exact Fx.
+  assert (Fa : in_F (fc_self fc) lv sc (EVar x) = true) by exact Fx.
   rewrite eval_EAssign in He.
   change (compile_expr fc L ce (EAssign (EVar x) rhs))
     with (compile_expr fc L ce (EVar x) ++ compile_expr fc (L + 1) ce rhs ++ [ins0 BYTECODE_OP_ASS_INT]) in *.
@@ -834,14 +838,14 @@ Proof.
   - eapply ext_trans; eauto.
 Qed.
 
-Lemma items_F1_let : forall sc x e t, items_F lv sc (ILet x e :: t) =
-  negb (is_fname FS x) && in_F lv sc e && items_F lv (x :: sc) t.
+Lemma items_F1_let : forall sc x e t, items_F (fc_self fc) lv sc (ILet x e :: t) =
+  negb (is_fname FS x) && negb (self_is (fc_self fc) x) && in_F (fc_self fc) lv sc e && items_F (fc_self fc) lv (x :: sc) t.
 Proof. reflexivity. Qed.
-Lemma items_F1_var : forall sc x e t, items_F lv sc (IVar x e :: t) =
-  negb (is_fname FS x) && in_F lv sc e && items_F lv (x :: sc) t.
+Lemma items_F1_var : forall sc x e t, items_F (fc_self fc) lv sc (IVar x e :: t) =
+  negb (is_fname FS x) && negb (self_is (fc_self fc) x) && in_F (fc_self fc) lv sc e && items_F (fc_self fc) lv (x :: sc) t.
 Proof. reflexivity. Qed.
-Lemma items_F1_expr : forall sc e t, items_F lv sc (IExpr e :: t) =
-  in_F lv sc e && match t with [] => true | _ => items_F lv sc t end.
+Lemma items_F1_expr : forall sc e t, items_F (fc_self fc) lv sc (IExpr e :: t) =
+  in_F (fc_self fc) lv sc e && match t with [] => true | _ => items_F (fc_self fc) lv sc t end.
 Proof. reflexivity. Qed.
 
 Lemma nbinds_nonneg : forall l, 0 <= nbinds l.
@@ -851,7 +855,7 @@ Lemma case_EBlock : forall k items, items_spec k -> expr_case_at (S k) (EBlock i
 Proof.
   intros k items IHi env st r st' He sc HF prog L ce ip stk h o m Hc HMS Hout Hem.
   rewrite eval_EBlock in He. rewrite compile_block in *.
-  change (in_F lv sc (EBlock items)) with (items_F lv sc items) in HF.
+  change (in_F (fc_self fc) lv sc (EBlock items)) with (items_F (fc_self fc) lv sc items) in HF.
   pose proof (IHi items env st None r st' He sc HF prog ip L ce (mkst ip stk h o) m
                 (code_at_app_l _ _ _ _ Hc) eq_refl HMS Hout Hem) as Hi.
   destruct r as [c|ex| |]; simpl in Hi |- *; auto.
@@ -887,7 +891,7 @@ Lemma items_bind_step : forall k x e t, expr_spec k -> items_spec k ->
   match eval genv k env st e with
   | (ROk c, st1) => eval_items genv k ((x, c) :: env) st1 t (Some c)
   | r => r end = (r, st') ->
-  forall sc, negb (is_fname FS x) && in_F lv sc e && items_F lv (x :: sc) t = true ->
+  forall sc, negb (is_fname FS x) && negb (self_is (fc_self fc) x) && in_F (fc_self fc) lv sc e && items_F (fc_self fc) lv (x :: sc) t = true ->
   forall prog L ce ip stk h o m,
     code_at prog ip (compile_expr fc L ce e ++ compile_items fc (L + 1) ((x, L + 1) :: ce) t) ->
     MS m st h -> o = out st -> env_match m env ce sc L stk ->
@@ -896,7 +900,8 @@ Lemma items_bind_step : forall k x e t, expr_spec k -> items_spec k ->
 Proof.
   intros k x e t IHe IHi env st r st' He sc HF prog L ce ip stk h o m Hc HMS Hout Hem.
   apply andb_true_iff in HF; destruct HF as [HF Ft].
-  apply andb_true_iff in HF; destruct HF as [Hnx Fe]. apply negb_true_iff in Hnx.
+  apply andb_true_iff in HF; destruct HF as [HF Fe].
+  apply andb_true_iff in HF; destruct HF as [Hnx Hsx]. apply negb_true_iff in Hnx. apply negb_true_iff in Hsx.
   set (ca := compile_expr fc L ce e) in *. set (ct := compile_items fc (L + 1) ((x, L + 1) :: ce) t) in *.
   destruct (eval genv k env st e) as [r1 st1] eqn:Ea.
   pose proof (IHe e _ _ _ _ Ea sc Fe prog ip L ce (mkst ip stk h o) m
@@ -906,7 +911,7 @@ Proof.
   destruct s1 as [ip1 stk1 h1 o1 fr1]; simpl in Hip1, Hstk1, HMS1, Hout1, Hfr1; subst ip1 stk1 fr1.
   pose proof (IHi t _ _ _ _ _ He (x :: sc) Ft prog (ip + length ca)%nat (L + 1) ((x, L + 1) :: ce)
                 (mkst (ip + length ca) (a1 :: stk) h1 o1) m1 (code_at_app_r _ _ _ _ Hc) eq_refl HMS1 Hout1
-                (env_match_bind _ _ _ _ _ _ _ _ _ x c1 a1 (env_match_ext _ _ _ _ _ _ _ _ _ _ Hem Hext1) Hm1 Hnx)) as Ht.
+                (env_match_bind _ _ _ _ _ _ _ _ _ x c1 a1 (env_match_ext _ _ _ _ _ _ _ _ _ _ Hem Hext1) Hm1 Hnx Hsx)) as Ht.
   fold ct in Ht. unfold items_concl in Ht |- *.
   destruct r as [c|ex| |]; cbv beta iota in Ht |- *; auto.
   - destruct Ht as (s2 & m2 & a2 & locals & Hst2 & Hip2 & Hstk2 & Hlen & Hm2 & HMS2 & Hext2 & Hout2 & Hfr2).
@@ -957,7 +962,10 @@ Proof.
                 (gp_vec _ _ _ _ _ _ _ _ HMS Hem) HR Hfi Hcc) as R.
   unfold fresh in He. destruct (alloc st (CFun fd env)) as [c st1] eqn:Ea. inv He. simpl.
   assert (Hfa : fun_addr fd (faddr (nstd + kk))) by (exists kk, KLam; split; [discriminate | split; [exact Hkk | reflexivity]]).
-  destruct (MS_closure m st h fd env addrs (faddr (nstd + kk)) c st' HMS Ea Hfa (proj1 (proj2 Hem)) HL)
+  assert (Hnn : forall k0, nth_error (g_all G) k0 <> Some (KNamed, fd)).
+  { intros k0 Hk0. pose proof (po_named _ Hpo k0 KNamed fd Hk0) as Hx. rewrite Hfi in Hx.
+    assert (k0 = kk) by lia. subst k0. congruence. }
+  destruct (MS_closure m st h fd env addrs (faddr (nstd + kk)) c st' HMS Ea Hfa (proj1 (proj2 Hem)) Hnn HL)
     as (HMS' & Hm' & Hext & Hout').
   eapply (post_ok_intro _ _ _ _ _ _ _ _ (S (length h)) R); simpl; [reflexivity | reflexivity | exact Hm' | exact HMS' | exact Hext | congruence | reflexivity].
 Qed.
@@ -965,7 +973,7 @@ Qed.
 (* ---- closures: a run of sibling functions ------------------------------------------------------- *)
 
 Lemma items_F_pending : forall t sc,
-  Compile4.items_F_f FS TL (g_all G) lv (in_F lv) sc (length (run_funcs t)) t = items_F lv sc (run_rest t).
+  Compile4.items_F_f FS TL (g_all G) (fc_self fc) lv (in_F (fc_self fc) lv) sc (length (run_funcs t)) t = items_F (fc_self fc) lv sc (run_rest t).
 Proof.
   induction t as [|it t IH]; intros sc; [reflexivity|].
   destruct it as [x e | x e | fd | e]; try reflexivity.
@@ -994,16 +1002,26 @@ Proof.
   destruct (IH _ _ _ H) as (j & H1 & H2). exists (S j). auto.
 Qed.
 
-Lemma items_run_step : forall k, items_spec k ->
-  forall fd t env st last r st', eval_items genv (S k) env st (IFunc fd :: t) last = (r, st') ->
-  forall sc, items_F lv sc (IFunc fd :: t) = true ->
+(* the run itself: from the ALLOC to the state in which the slots are filled, for the items of any block
+   (ordinary or in tail position): the states are related again and the extended environment is related at the
+   level after the run *)
+Lemma run_prefix : forall fd t env st sc, items_F (fc_self fc) lv sc (IFunc fd :: t) = true ->
   forall prog L ce ip stk h o m,
-    code_at prog ip (compile_items fc L ce (IFunc fd :: t)) ->
-    MS m st h -> o = out st -> env_match m env ce sc L stk ->
-    items_concl prog (mkst ip stk h o) ip (compile_items fc L ce (IFunc fd :: t)) (nbinds (IFunc fd :: t)) m r st'.
+    let fds := fd :: run_funcs t in
+    let kk := length fds in
+    let L' := L + Z.of_nat kk in
+    let ce' := func_cenv fds (L + 1) ce in
+    let rc := run_code_f (closure_code FT TL fc L' ce') fds kk in
+    let Sk := rev (seq (length h) kk) ++ stk in
+    CompileCorrect4Base.code_at prog ip (ins BYTECODE_ALLOC (Z.of_nat kk) 0 :: rc) -> prog_ok prog ->
+    MS m st h -> env_match m env ce sc L stk ->
+    exists H' m',
+      star prog (mkst ip stk h o) (mkst (ip + S (length rc)) Sk H' o) /\
+      MS m' (run_state fds env st) H' /\
+      env_match m' (run_env fds env st) ce' (map fd_name fds ++ sc) L' Sk /\ ext m m' /\
+      items_F (fc_self fc) lv (map fd_name fds ++ sc) (run_rest t) = true.
 Proof.
-  intros k IHi fd t env st last r st' He sc HF prog L ce ip stk h o m Hc HMS Hout Hem.
-  set (fds := fd :: run_funcs t) in *. set (kk := length fds).
+  intros fd t env st sc HF prog L ce ip stk h o m fds kk L' ce' rc Sk Hc1 Hpo HMS Hem.
   (* the fragment *)
   unfold Compile4.items_F in HF. cbn [Compile4.items_F_f] in HF. cbv zeta in HF. fold fds in HF.
   apply andb_true_iff in HF; destruct HF as [HF HFr]. apply andb_true_iff in HF; destruct HF as [_ Hrun].
@@ -1011,40 +1029,27 @@ Proof.
   unfold run_ok in Hrun. apply andb_true_iff in Hrun; destruct Hrun as [Hrun Hfv].
   apply andb_true_iff in Hrun; destruct Hrun as [Hnd Hnames].
   apply nodup_ids_NoDup in Hnd.
-  assert (Hnew : forall f, In f fds -> mem_id (fd_name f) sc = false /\ is_fname (g_sigs G) (fd_name f) = false).
+  assert (Hnew : forall f, In f fds -> mem_id (fd_name f) sc = false /\ is_fname (g_sigs G) (fd_name f) = false /\
+                                        self_is (fc_self fc) (fd_name f) = false).
   { intros f Hf. rewrite forallb_forall in Hnames. specialize (Hnames (fd_name f) (in_map fd_name _ _ Hf)).
-    apply andb_true_iff in Hnames. destruct Hnames as [A B]. apply negb_true_iff in A, B. auto. }
-  (* the code *)
-  unfold compile_items0, Compile4.compile_items in Hc |- *.
-  rewrite (CompileCorrect4Base.compile_items_run) in Hc |- *. cbv zeta in Hc |- *. fold fds kk in Hc |- *.
-  set (L' := L + Z.of_nat kk) in *. set (ce' := func_cenv fds (L + 1) ce) in *.
-  set (rc := run_code_f (closure_code FT TL fc L' ce') fds kk) in *.
-  set (rest := compile_items_f (Compile4.compile_expr FT TL fc) (Compile4.compile_expr FT TL fc) (closure_code FT TL fc) L' ce' 0 (run_rest t)) in *.
-  pose proof Hc as (Hcc & Hpo).
-  assert (Hc1 : CompileCorrect4Base.code_at prog ip (ins BYTECODE_ALLOC (Z.of_nat kk) 0 :: rc)).
-  { change (ins BYTECODE_ALLOC (Z.of_nat kk) 0 :: rc ++ rest) with ((ins BYTECODE_ALLOC (Z.of_nat kk) 0 :: rc) ++ rest) in Hcc.
-    eapply CompileCorrect4Base.code_at_app_l; eauto. }
-  assert (Hc2 : code_at prog (ip + S (length rc)) rest).
-  { change (ins BYTECODE_ALLOC (Z.of_nat kk) 0 :: rc ++ rest) with ((ins BYTECODE_ALLOC (Z.of_nat kk) 0 :: rc) ++ rest) in Hc.
-    apply code_at_app_r in Hc. exact Hc. }
+    apply andb_true_iff in Hnames. destruct Hnames as [AB C]. apply andb_true_iff in AB. destruct AB as [A B].
+    apply negb_true_iff in A, B, C. auto. }
   (* the evaluator *)
-  rewrite eval_items_IFunc in He. fold fds in He.
   set (e' := run_env fds env st) in *. set (st1 := run_state fds env st) in *.
-  set (Sk := rev (seq (length h) kk) ++ stk).
   assert (Hlen := ms_len _ _ _ HMS).
   (* the extended environment, for any recorded vectors *)
-  assert (Hem' : forall nv, CompileCorrect4Rel.env_match G fc (r_gp fr) gl
-                   {| mm := mm m ++ map MA (seq (length h) kk); mv := mv m ++ nv |} e' ce'
+  assert (Hem' : forall nv nf, CompileCorrect4Rel.env_match G fc (r_gp fr) gl
+                   {| mm := mm m ++ map MA (seq (length h) kk); mv := mv m ++ nv; mf := mf m ++ nf |} e' ce'
                    (map fd_name fds ++ sc) L' Sk).
-  { intros nv. apply (env_match_run G fc (r_gp fr) gl m env ce sc L stk fds st h nv Hem Hnd Hnew Hlen). }
+  { intros nv nf. apply (env_match_run G fc (r_gp fr) gl m env ce sc L stk fds st h nv nf Hem Hnd Hnew Hlen). }
   (* what every function of the run captures *)
-  set (m0 := {| mm := mm m ++ map MA (seq (length h) kk); mv := mv m ++ [] |}).
+  set (m0 := {| mm := mm m ++ map MA (seq (length h) kk); mv := mv m ++ []; mf := mf m ++ [] |}).
   destruct (Forall2_build (fun f addrs =>
               Forall2 (resolves fc L' ce' Sk gl) (fvs_fd TL f) addrs /\
               Forall2 (fun y a => exists c, lookup y e' = Some c /\ mget m0 c = Some (MA a)) (fvs_fd TL f) addrs) fds)
     as (addrss & HA).
   { intros f Hf. rewrite forallb_forall in Hfv. specialize (Hfv f Hf). apply andb_true_iff in Hfv. destruct Hfv as [_ Hfv].
-    destruct (env_addrs m0 e' ce' _ L' Sk _ (Hem' []) Hfv) as (addrs & A & B). exists addrs. auto. }
+    destruct (env_addrs m0 e' ce' _ L' Sk _ (Hem' [] []) Hfv) as (addrs & A & B). exists addrs. auto. }
   destruct (Forall2_build (fun f (kidx : nat) => nth_error (g_all G) kidx = Some (KNamed, f)) fds) as (ks0 & HK0).
   { intros f Hf. rewrite forallb_forall in Hfv. specialize (Hfv f Hf). apply andb_true_iff in Hfv. destruct Hfv as [Hkn _].
     apply known_nth in Hkn. exact Hkn. }
@@ -1058,18 +1063,19 @@ Proof.
   fold kk Sk rc in Hst.
   destruct (CompileCorrect4Base.filled_vecs X addrss ks H' _ _ Hfill) as (vs & Hlvs & Hvs).
   set (nv := combine vs addrss).
-  set (m' := {| mm := mm m ++ map MA (seq (length h) kk); mv := mv m ++ nv |}).
-  assert (Hext : ext m m') by (split; simpl; eexists; reflexivity).
+  set (nf := combine (seq (length (cells st)) kk) (map (fun f => (f, e')) fds)).
+  set (m' := {| mm := mm m ++ map MA (seq (length h) kk); mv := mv m ++ nv; mf := mf m ++ nf |}).
+  assert (Hext : ext m m') by (split; [|split]; simpl; eexists; reflexivity).
   assert (Hl1 : length addrss = kk) by (unfold kk; symmetry; clear -HA; induction HA; simpl; auto).
   assert (Hl2 : length ks = kk) by (unfold kk; symmetry; clear -HK; induction HK; simpl; auto).
   (* the states are related again *)
   assert (HMS' : MS m' st1 H').
   { unfold st1, run_state. fold e'.
-    apply (MS_run m st h H' fds e' nv HMS Hlow).
+    apply (MS_run m st h H' fds env nv HMS Hnd Hlow).
     - intros v l Hin. destruct (In_combine_nth _ _ _ _ Hin) as (j & Hv & Ha).
       destruct (nth_error ks j) as [kj|] eqn:Ek; [|apply nth_error_None in Ek; assert (j < length addrss)%nat by (apply nth_error_Some; congruence); lia].
       destruct (Hvs j l kj Ha Ek) as (v' & A & _ & C). congruence.
-    - exact (proj1 (proj2 (Hem' []))).
+    - exact (proj1 (proj2 (Hem' [] []))).
     - intros j f Hj.
       destruct (Forall2_nth_l _ _ _ _ _ HA Hj) as (ad & Had & _ & HL).
       destruct (Forall2_nth_l _ _ _ _ _ HK0 Hj) as (k0 & Hk0 & Hg0).
@@ -1078,10 +1084,41 @@ Proof.
       exists v, ad, (faddr (nstd + k0)). split; [exact B|]. split; [unfold nv; eapply nth_error_In, nth_error_combine; eauto|].
       split; [exists k0, KNamed; split; [discriminate | split; [exact Hg0 | reflexivity]]|].
       eapply Forall2_imp; [|exact HL]. intros y a (c & Y1 & Y2). exists c. split; [exact Y1 | exact Y2]. }
+  exists H', m'. split; [exact Hst|]. split; [exact HMS'|]. split; [exact (Hem' nv nf)|]. split; [exact Hext | exact HFr].
+Qed.
+
+Lemma items_run_step : forall k, items_spec k ->
+  forall fd t env st last r st', eval_items genv (S k) env st (IFunc fd :: t) last = (r, st') ->
+  forall sc, items_F (fc_self fc) lv sc (IFunc fd :: t) = true ->
+  forall prog L ce ip stk h o m,
+    code_at prog ip (compile_items fc L ce (IFunc fd :: t)) ->
+    MS m st h -> o = out st -> env_match m env ce sc L stk ->
+    items_concl prog (mkst ip stk h o) ip (compile_items fc L ce (IFunc fd :: t)) (nbinds (IFunc fd :: t)) m r st'.
+Proof.
+  intros k IHi fd t env st last r st' He sc HF prog L ce ip stk h o m Hc HMS Hout Hem.
+  set (fds := fd :: run_funcs t) in *. set (kk := length fds).
+  (* the code *)
+  unfold compile_items0, Compile4.compile_items in Hc |- *.
+  rewrite (CompileCorrect4Base.compile_items_run) in Hc |- *. cbv zeta in Hc |- *. fold fds kk in Hc |- *.
+  set (L' := L + Z.of_nat kk) in *. set (ce' := func_cenv fds (L + 1) ce) in *.
+  set (rc := run_code_f (closure_code FT TL fc L' ce') fds kk) in *.
+  set (rest := compile_items_f (Compile4.compile_expr FT TL fc) (Compile4.compile_expr FT TL fc) (closure_code FT TL fc) L' ce' 0 (run_rest t)) in *.
+  pose proof Hc as (Hcc & Hpo).
+  assert (Hc1 : CompileCorrect4Base.code_at prog ip (ins BYTECODE_ALLOC (Z.of_nat kk) 0 :: rc)).
+  { change (ins BYTECODE_ALLOC (Z.of_nat kk) 0 :: rc ++ rest) with ((ins BYTECODE_ALLOC (Z.of_nat kk) 0 :: rc) ++ rest) in Hcc.
+    eapply CompileCorrect4Base.code_at_app_l; eauto. }
+  assert (Hc2 : code_at prog (ip + S (length rc)) rest).
+  { change (ins BYTECODE_ALLOC (Z.of_nat kk) 0 :: rc ++ rest) with ((ins BYTECODE_ALLOC (Z.of_nat kk) 0 :: rc) ++ rest) in Hc.
+    apply code_at_app_r in Hc. exact Hc. }
+  rewrite eval_items_IFunc in He. fold fds in He.
+  set (e' := run_env fds env st) in *. set (st1 := run_state fds env st) in *.
+  set (Sk := rev (seq (length h) kk) ++ stk).
+  destruct (run_prefix fd t env st sc HF prog L ce ip stk h o m Hc1 Hpo HMS Hem) as (H' & m' & Hst & HMS' & Hem' & Hext & HFr).
+  fold fds kk L' ce' rc Sk e' st1 in Hst, HMS', Hem', HFr.
   (* the rest of the block *)
   pose proof (IHi (run_rest t) e' st1 _ r st' He (map fd_name fds ++ sc) HFr prog (ip + S (length rc))%nat L' ce'
                 (mkst (ip + S (length rc)) Sk H' o) m' Hc2 eq_refl HMS'
-                (eq_trans Hout (eq_sym (eq_refl : out st1 = out st))) (Hem' nv)) as Ht.
+                (eq_trans Hout (eq_sym (eq_refl : out st1 = out st))) Hem') as Ht.
   change (compile_items fc L' ce' (run_rest t)) with rest in Ht. unfold items_concl in Ht |- *.
   assert (Hnb : nbinds (IFunc fd :: t) = Z.of_nat kk + nbinds (run_rest t)).
   { rewrite (nbinds_run (IFunc fd :: t)). reflexivity. }
@@ -1165,15 +1202,17 @@ Lemma MS_heap_app : forall m st h l, MS m st h -> MS m st (h ++ l).
 Proof.
   intros m st h l HMS. constructor.
   - apply (ms_len _ _ _ HMS).
-  - intros c a Hm. destruct (ms_rel _ _ _ HMS c a Hm) as (v & z & H1 & H2 & H3).
-    exists v, z. split; [|split]; auto. rewrite nth_error_app1; auto. apply nth_error_Some. congruence.
+  - intros c a Hm. destruct (ms_rel _ _ _ HMS c a Hm) as (v & z & H1 & H2 & H3 & H4).
+    exists v, z. split; [|split; [|split]]; auto. rewrite nth_error_app1; auto. apply nth_error_Some. congruence.
   - apply (ms_inj _ _ _ HMS).
   - apply (ms_fun _ _ _ HMS).
   - intros v l0 Hin. rewrite nth_error_app1; [apply (ms_vec _ _ _ HMS _ _ Hin) | eapply MS_vec_lt; eauto].
+  - apply (ms_fcl _ _ _ HMS).
+  - apply (ms_fself _ _ _ HMS).
 Qed.
 
 Lemma MS_print : forall m st h z, MS m st h -> MS m (print_num st z) h.
-Proof. intros m st h z HMS. constructor; [apply (ms_len _ _ _ HMS) | apply (ms_rel _ _ _ HMS) | apply (ms_inj _ _ _ HMS) | apply (ms_fun _ _ _ HMS) | apply (ms_vec _ _ _ HMS)]. Qed.
+Proof. intros m st h z HMS. constructor; [apply (ms_len _ _ _ HMS) | apply (ms_rel _ _ _ HMS) | apply (ms_inj _ _ _ HMS) | apply (ms_fun _ _ _ HMS) | apply (ms_vec _ _ _ HMS) | apply (ms_fcl _ _ _ HMS) | apply (ms_fself _ _ _ HMS)]. Qed.
 
 
 (* a run that ends where it started (same stack, extended morphism) can be put in front *)
@@ -1377,7 +1416,7 @@ Qed.
 
 Definition while_spec (k : nat) : Prop :=
   forall c b env st r st', eval genv k env st (EWhile c b) = (r, st') ->
-  forall sc, in_F lv sc c = true -> in_F lv sc b = true ->
+  forall sc, in_F (fc_self fc) lv sc c = true -> in_F (fc_self fc) lv sc b = true ->
   forall prog pc L ce s m,
     code_at prog pc (while_code (compile_expr fc L ce c) (compile_expr fc L ce b)) -> v_ip s = S pc ->
     MS m st (v_heap s) -> v_out s = out st -> env_match_g fc (r_gp (v_fr s)) gl m env ce sc L (v_stk s) ->
@@ -1385,7 +1424,7 @@ Definition while_spec (k : nat) : Prop :=
 
 Definition dowhile_spec (k : nat) : Prop :=
   forall b c env st r st', eval genv k env st (EDoWhile b c) = (r, st') ->
-  forall sc, in_F lv sc b = true -> in_F lv sc c = true ->
+  forall sc, in_F (fc_self fc) lv sc b = true -> in_F (fc_self fc) lv sc c = true ->
   forall prog pc L ce s m,
     code_at prog pc (dowhile_code (compile_expr fc L ce b) (compile_expr fc L ce c)) -> v_ip s = S pc ->
     MS m st (v_heap s) -> v_out s = out st -> env_match_g fc (r_gp (v_fr s)) gl m env ce sc L (v_stk s) ->
@@ -1393,7 +1432,7 @@ Definition dowhile_spec (k : nat) : Prop :=
 
 Definition while_spec_at (k : nat) : Prop :=
   forall c b env st r st', eval genv k env st (EWhile c b) = (r, st') ->
-  forall sc, in_F lv sc c = true -> in_F lv sc b = true ->
+  forall sc, in_F (fc_self fc) lv sc c = true -> in_F (fc_self fc) lv sc b = true ->
   forall prog pc L ce stk h o m,
     code_at prog pc (while_code (compile_expr fc L ce c) (compile_expr fc L ce b)) ->
     MS m st h -> o = out st -> env_match m env ce sc L stk ->
@@ -1401,7 +1440,7 @@ Definition while_spec_at (k : nat) : Prop :=
 
 Definition dowhile_spec_at (k : nat) : Prop :=
   forall b c env st r st', eval genv k env st (EDoWhile b c) = (r, st') ->
-  forall sc, in_F lv sc b = true -> in_F lv sc c = true ->
+  forall sc, in_F (fc_self fc) lv sc b = true -> in_F (fc_self fc) lv sc c = true ->
   forall prog pc L ce stk h o m,
     code_at prog pc (dowhile_code (compile_expr fc L ce b) (compile_expr fc L ce c)) ->
     MS m st h -> o = out st -> env_match m env ce sc L stk ->
@@ -1547,7 +1586,7 @@ Proof.
   apply andb_true_iff in HF; destruct HF as [HF Fs].
   apply andb_true_iff in HF; destruct HF as [HF Fc].
   apply andb_true_iff in HF; destruct HF as [Hlv Fi].
-  assert (Fw : in_F lv sc (EWhile c (EBlock [IExpr b; IExpr st0])) = true).
+  assert (Fw : in_F (fc_self fc) lv sc (EWhile c (EBlock [IExpr b; IExpr st0])) = true).
   { simpl. rewrite Hlv, Fc, Fb, Fs. reflexivity. }
   rewrite eval_EFor in He. rewrite compile_for in *.
   set (ci := compile_expr fc L ce i) in *.
@@ -1842,14 +1881,14 @@ Qed.
 
 Local Notation compile_args := (Compile4.compile_args FT TL fc).
 
-Lemma in_F_call : forall sc f args, in_F lv sc (ECall f args) =
-  Nat.leb 3 lv && args_F FS TL (g_all G) lv sc args &&
+Lemma in_F_call : forall sc f args, in_F (fc_self fc) lv sc (ECall f args) =
+  Nat.leb 3 lv && args_F FS TL (g_all G) (fc_self fc) lv sc args &&
   match f with
   | EVar g => match fsig_lookup g FS with
               | Some n => Nat.eqb n (length args)
-              | None => Nat.leb 4 lv && mem_id g sc
+              | None => Nat.leb 4 lv && (mem_id g sc || self_is (fc_self fc) g)
               end
-  | _ => Nat.leb 4 lv && in_F lv sc f
+  | _ => Nat.leb 4 lv && in_F (fc_self fc) lv sc f
   end.
 Proof.
   intros. cbn [Compile4.in_F]. f_equal. f_equal. induction args as [|a t IH]; [reflexivity|].
@@ -1883,7 +1922,7 @@ Definition args_concl (prog : list rinstr) (s : vstate) (pc : nat) (code : list 
 
 Lemma args_spec_of : forall k, expr_spec fc gl k ->
   forall args env st ocs r st1, eval_args genv k env args st = ((ocs, r), st1) ->
-  forall sc, args_F FS TL (g_all G) lv sc args = true ->
+  forall sc, args_F FS TL (g_all G) (fc_self fc) lv sc args = true ->
   forall prog pc L ce s m,
     code_at prog pc (compile_args ce L args) -> v_ip s = pc ->
     MS m st (v_heap s) -> v_out s = out st -> env_match_g fc (r_gp (v_fr s)) gl m env ce sc L (v_stk s) ->
@@ -1963,9 +2002,9 @@ Lemma var_code_top : forall (m : morph) (env : Eval.env) ce sc L stk gp f n,
   env_match_g fc gp gl m env ce sc L stk -> fsig_lookup f FS = Some n ->
   forall L', var_code FT TL fc L' ce f = top_code (Compile4.fidx FT f).
 Proof.
-  intros m env ce sc L stk gp f n (_ & _ & _ & _ & Hce) Hs L'. unfold var_code.
+  intros m env ce sc L stk gp f n (_ & _ & _ & _ & Hce & _) Hs L'. unfold var_code.
   destruct (clookup f ce) as [i|] eqn:Ec.
-  - pose proof (Hce f i Ec) as Hx. unfold is_fname in Hx. fold FS in Hx. rewrite Hs in Hx. discriminate.
+  - pose proof (proj1 (Hce f i Ec)) as Hx. unfold is_fname in Hx. fold FS in Hx. rewrite Hs in Hx. discriminate.
   - destruct (fc_self fc) as [g|] eqn:Es; cbn [self_is].
     + destruct (N.eqb_spec f g) as [->|]; [|rewrite (fsig_mem _ _ Hs); reflexivity].
       pose proof (Hfc g eq_refl) as Hx. unfold is_fname in Hx. rewrite Hs in Hx. discriminate.
@@ -2002,7 +2041,8 @@ Definition act_rel (m : morph) (kd : fkind) (fd : fdef) (cenv : Eval.env) (vec :
   | KTop => cenv = [] /\ gl = []
   | _ => In (vec, gl) (mv m) /\
          Forall2 (fun y a => exists c, lookup y cenv = Some c /\ mget m c = Some (MA a)) (fvs_fd TL fd) gl /\
-         (forall x c, lookup x cenv = Some c -> is_fname FS x = false)
+         (forall x c, lookup x cenv = Some c -> is_fname FS x = false) /\
+         (kd = KNamed -> exists cf, lookup (fd_name fd) cenv = Some cf /\ In (cf, (fd, cenv)) (mf m))
   end.
 
 Definition act_done (prog : list rinstr) (s0 : vstate) (m : morph) (r : res) (st' : state)
@@ -2140,18 +2180,15 @@ Qed.
    top-level function — a slot (parameter, let, nested function), a captured name, a call, a conditional, a
    function expression.  MARK; args; the callee expression; CALL enters the code of the function object on the
    stack with gp = its vector; the body runs under the closure's environment *)
-Lemma case_ECall_val : forall fr k f args,
-  match f with EVar g => fsig_lookup g FS = None | _ => True end ->
-  expr_spec fc gl k -> body_spec k -> expr_case_at fr fc gl (S k) (ECall f args).
+Lemma call_val : forall fr k f args, expr_spec fc gl k -> body_spec k ->
+  forall env st r st', eval genv (S k) env st (ECall f args) = (r, st') ->
+  forall sc, args_F FS TL (g_all G) (fc_self fc) lv sc args = true -> in_F (fc_self fc) lv sc f = true ->
+  forall prog L ce ip stk h o m,
+    code_at prog ip (compile_expr fc L ce (ECall f args)) ->
+    MS m st h -> o = out st -> env_match_g fc (r_gp fr) gl m env ce sc L stk ->
+    concl prog (mk ip stk h o fr) ip (length (compile_expr fc L ce (ECall f args))) m r st'.
 Proof.
-  intros fr k f args Hnt IH IHb env st r st' He sc HF prog L ce ip stk h o m Hc HMS Hout Hem.
-  rewrite in_F_call in HF.
-  apply andb_true_iff in HF; destruct HF as [HF Hcal].
-  apply andb_true_iff in HF; destruct HF as [_ Fargs].
-  assert (Ff : in_F lv sc f = true).
-  { destruct f; try (apply andb_true_iff in Hcal; destruct Hcal as [_ Hx]; exact Hx).
-    rewrite Hnt in Hcal. apply andb_true_iff in Hcal. destruct Hcal as [_ Hx]. exact Hx. }
-  clear Hcal.
+  intros fr k f args IH IHb env st r st' He sc Fargs Ff prog L ce ip stk h o m Hc HMS Hout Hem.
   rewrite eval_ECall in He.
   set (n := Z.of_nat (length args)).
   assert (Ecode : compile_expr fc L ce (ECall f args) =
@@ -2210,7 +2247,8 @@ Proof.
   unfold apply_fun in He.
   destruct (get_cell st2 cfn) as [vfn|] eqn:Eg; [|inv He; exact I].
   destruct vfn as [ | | fd cenv | | ]; try (inv He; exact I).
-  destruct (MS_payload_cell _ _ _ _ _ _ HMS2 Hm2 Eg) as (hc & Hhc & Hrel).
+  destruct (ms_rel _ _ _ HMS2 cfn af Hm2) as (vfn' & hc & Hcv' & Hhc & Hrel & Hrec).
+  unfold get_cell in Eg. rewrite Hcv' in Eg. injection Eg as Evf. rewrite Evf in *. clear Evf.
   destruct hc as [ | vec addr | ]; simpl in Hrel; try contradiction.
   destruct Hrel as ((kidx & kd & Hkd & Hk & Haddr) & Hnf & l & Hvl & HFl).
   destruct (bind_params (fd_params fd) cs) as [penv|] eqn:Hb; [|inv He; exact I].
@@ -2218,7 +2256,10 @@ Proof.
   { intros g gd Hgd. destruct Hem as (_ & _ & Hf3 & _). destruct (Hf3 g gd Hgd) as (cg & Hl & Hm).
     exists cg. split; [exact Hl | eapply ext_nth; [eapply ext_trans; [exact Hext1 | exact Hext2] | exact Hm]]. }
   assert (Hact : act_rel m2 kd fd cenv vec l).
-  { destruct kd; [congruence | |]; (split; [exact Hvl | split; [exact HFl | exact Hnf]]). }
+  { destruct kd; [congruence | |]; (split; [exact Hvl | split; [exact HFl | split; [exact Hnf|]]]).
+    - intros _. exists cfn. split; [|apply Hrec; reflexivity].
+      eapply (ms_fself _ _ _ HMS2); [apply Hrec; reflexivity | exact Hk].
+    - intros Hx. discriminate Hx. }
   set (Fr := {| f_ret := retL; f_fp := r_fp fr; f_gp := r_gp fr; f_below := stk; f_exc := r_exc fr |}).
   pose proof (IHb kidx kd fd Hk cenv vec l cs penv st2 r st' Hb He prog astk h2 o2 m2 (r_exc fr) Fr (r_frames fr)
                 Hpo HMS2 Hout2 (Forall2_ext_m _ _ _ _ Hext2 HF1) Hg2 Hact) as Hbody.
@@ -2247,6 +2288,152 @@ Proof.
     split; [subst retL qf q; simpl; lia|]. split; [reflexivity|]. split; [reflexivity|].
     split; [reflexivity|]. split; [exists t, []; reflexivity|]. split; [reflexivity|].
     split; [exact HMS' | eapply ext_trans; [exact Hext1|]; eapply ext_trans; eauto].
+Qed.
+
+(* the callee is an expression other than a name *)
+Lemma case_ECall_val : forall fr k f args,
+  match f with EVar _ => False | _ => True end ->
+  expr_spec fc gl k -> body_spec k -> expr_case_at fr fc gl (S k) (ECall f args).
+Proof.
+  intros fr k f args Hnv IH IHb env st r st' He sc HF prog L ce ip stk h o m Hc HMS Hout Hem.
+  rewrite in_F_call in HF.
+  apply andb_true_iff in HF; destruct HF as [HF Hcal].
+  apply andb_true_iff in HF; destruct HF as [_ Fargs].
+  assert (Ff : in_F (fc_self fc) lv sc f = true).
+  { destruct f; try contradiction; apply andb_true_iff in Hcal; destruct Hcal as [_ Hx]; exact Hx. }
+  eapply call_val; eauto.
+Qed.
+
+(* a named nested function calls ITSELF: the callee code is COPYGLOB; ID_FUNC_ADDR f — a new function object
+   with the vector the function runs under; the evaluator reads the cell its environment binds f to, which holds
+   (still: cells of closures are only ever overwritten by ints) the closure that is running *)
+Lemma case_ECall_self : forall fr k g args, fsig_lookup g FS = None ->
+  expr_spec fc gl k -> body_spec k ->
+  forall env st r st', eval genv (S k) env st (ECall (EVar g) args) = (r, st') ->
+  forall sc, args_F FS TL (g_all G) (fc_self fc) lv sc args = true ->
+  mem_id g sc = false -> self_is (fc_self fc) g = true ->
+  forall prog L ce ip stk h o m,
+    code_at prog ip (compile_expr fc L ce (ECall (EVar g) args)) ->
+    MS m st h -> o = out st -> env_match_g fc (r_gp fr) gl m env ce sc L stk ->
+    concl prog (mk ip stk h o fr) ip (length (compile_expr fc L ce (ECall (EVar g) args))) m r st'.
+Proof.
+  intros fr k g args Hs IH IHb env st r st' He sc Fargs Hnsc Hself prog L ce ip stk h o m Hc HMS Hout Hem.
+  assert (Hfs : fc_self fc = Some g).
+  { unfold self_is in Hself. destruct (fc_self fc) as [g'|]; [|discriminate]. apply N.eqb_eq in Hself. congruence. }
+  assert (Hcl : clookup g ce = None).
+  { destruct (clookup g ce) as [i|] eqn:E; [|reflexivity].
+    destruct Hem as (_ & _ & _ & _ & Hce & _). destruct (Hce g i E) as [_ Hx]. congruence. }
+  destruct (proj1 (proj2 (proj2 (proj2 (proj2 (proj2 Hem))))) g Hfs Hcl)
+    as (cf & kself & sfd & scenv & Hlf & Hrec & Hname & Hk & Hgv & HFv & Hnf).
+  rewrite eval_ECall in He.
+  set (n := Z.of_nat (length args)).
+  pose proof Hc as (_ & Hpo).
+  pose proof (po_named _ Hpo kself KNamed sfd Hk) as Hfi. rewrite Hname in Hfi.
+  assert (Ecode : compile_expr fc L ce (ECall (EVar g) args) =
+                  call_code (compile_args ce (L + num_frame_ptrs) args)
+                            [ins0 BYTECODE_COPYGLOB; ins BYTECODE_ID_FUNC_ADDR (Z.of_nat (nstd + kself)) 0]).
+  { unfold Compile4.compile_expr. cbn [Compile4.cexpr andb]. unfold var_code. rewrite Hcl, Hself, Hfi. reflexivity. }
+  rewrite Ecode in *. clear Ecode.
+  set (ca := compile_args ce (L + num_frame_ptrs) args) in *.
+  rewrite call_code_length. unfold call_code in Hc. cbn [length].
+  pose proof (code_at_head _ _ _ _ Hc) as HLN.
+  pose proof (code_at_tail _ _ _ _ Hc) as H1.
+  pose proof (code_at_head _ _ _ _ H1) as HMK.
+  pose proof (code_at_tail _ _ _ _ H1) as H2.
+  pose proof (code_at_app_l _ _ _ _ H2) as Hca.
+  pose proof (code_at_app_r _ _ _ _ H2) as H3. cbn [app] in H3.
+  set (q := (S (S ip) + length ca)%nat) in *.
+  pose proof (code_at_head _ _ _ _ H3) as HCG.
+  pose proof (code_at_head _ _ _ _ (code_at_tail _ _ _ _ H3)) as HFA.
+  pose proof (code_at_head _ _ _ _ (code_at_tail _ _ _ _ (code_at_tail _ _ _ _ H3))) as HCL.
+  pose proof (code_at_head _ _ _ _ (code_at_tail _ _ _ _ (code_at_tail _ _ _ _ (code_at_tail _ _ _ _ H3)))) as HLB.
+  set (retL := S (S (S q))) in *.
+  set (hdr := [retL; r_fp fr; r_gp fr; 0; 0]%nat).
+  set (fr' := set_fp fr (length stk + 5)).
+  assert (Hmk : star prog (mk ip stk h o fr) (mk (S (S ip)) (hdr ++ stk) h o fr')).
+  { eapply star_step; [apply step_line; exact HLN|]. apply star_one.
+    eapply step_mark; [exact HMK | subst retL q; unfold len; simpl length; lia]. }
+  destruct (eval_args genv k env args st) as [[ocs ra] st1] eqn:Eargs.
+  pose proof (env_match_pushn _ _ _ _ _ _ _ _ _ hdr Hem) as Hem5.
+  change (Z.of_nat (length hdr)) with num_frame_ptrs in Hem5.
+  pose proof (args_spec_of fc gl k IH args env st ocs ra st1 Eargs sc Fargs prog (S (S ip)) (L + num_frame_ptrs) ce
+                (mk (S (S ip)) (hdr ++ stk) h o fr') m Hca eq_refl HMS Hout Hem5) as Ha.
+  fold ca in Ha. fold q in Ha. unfold args_concl in Ha.
+  destruct ocs as [cs|].
+  2:{ inv He. simpl in Ha. destruct r as [c|ex| |]; simpl; auto.
+      { exfalso. eapply eval_args_none_not_ok; eauto. }
+      destruct Ha as [-> Hr]. split; [reflexivity|].
+      eapply (call_arg_fault fr prog _ _ stk retL (S (S ip)) q ip (length ca + 2 + 4) _ _ Hmk);
+        [reflexivity | reflexivity | reflexivity | reflexivity | lia | subst q; lia | subst retL q; simpl; lia | exact Hr]. }
+  destruct Ha as (s1 & m1 & astk & Hst1 & Hip1 & Hstk1 & Hlen1 & HF1 & HMS1 & Hext1 & Hout1 & Hfr1).
+  destruct s1 as [ip1 stk1 h1 o1 fr1]; simpl in Hip1, Hstk1, HMS1, Hout1, Hfr1; subst ip1 stk1 fr1.
+  (* the callee expression: the function's own name *)
+  destruct k as [|k']; [rewrite eval_O in He; inv He; exact I|].
+  rewrite eval_EVar in He. unfold lookup_var in He. rewrite Hlf in He.
+  unfold apply_fun in He.
+  pose proof (ext_fcl _ _ _ Hext1 Hrec) as Hrec1.
+  destruct (ms_fcl _ _ _ HMS1 _ _ _ Hrec1) as [Hcell | (w & Hcell & Hw)].
+  2:{ unfold get_cell in He. rewrite Hcell in He. destruct w; try contradiction; inv He; exact I. }
+  unfold get_cell in He. rewrite Hcell in He.
+  destruct (bind_params (fd_params sfd) cs) as [penv|] eqn:Hb; [|inv He; exact I].
+  assert (Hg1 : genv_ok m1).
+  { intros f0 gd Hgd. destruct Hem as (_ & _ & Hf3 & _). destruct (Hf3 f0 gd Hgd) as (cg & Hl & Hm).
+    exists cg. split; [exact Hl | eapply ext_nth; eauto]. }
+  assert (Hact : act_rel m1 KNamed sfd scenv (r_gp fr) gl).
+  { split; [eapply ext_vec; eauto|]. split; [|split; [exact Hnf|]].
+    - eapply Forall2_imp; [|exact HFv]. intros y a (c & Y1 & Y2). exists c. split; [exact Y1 | eapply ext_nth; eauto].
+    - intros _. exists cf. split; [|exact Hrec1]. eapply (ms_fself _ _ _ HMS1); eauto. }
+  set (h1' := h1 ++ [HFun (r_gp fr) (faddr (nstd + kself))]).
+  assert (HMS1' : MS m1 st1 h1') by (unfold h1'; apply MS_heap_app; exact HMS1).
+  set (Fr := {| f_ret := retL; f_fp := r_fp fr; f_gp := r_gp fr; f_below := stk; f_exc := r_exc fr |}).
+  pose proof (IHb kself KNamed sfd Hk scenv (r_gp fr) gl cs penv st1 r st' Hb He prog astk h1' o1 m1 (r_exc fr) Fr (r_frames fr)
+                Hpo HMS1' Hout1 HF1 Hg1 Hact) as Hbody.
+  unfold act_done in Hbody. cbn [Fr f_ret f_fp f_gp f_below f_exc] in Hbody.
+  assert (Henter : star prog (mk ip stk h o fr)
+                     (mk (faddr (nstd + kself)) astk h1' o1
+                         {| r_fp := 0; r_gp := r_gp fr; r_exc := r_exc fr; r_frames := Fr :: r_frames fr |})).
+  { eapply star_trans; [exact Hmk|]. eapply star_trans; [exact Hst1|].
+    eapply star_trans.
+    { apply (CompileCorrect4Base.step_copyglob_self X prog q (astk ++ hdr ++ stk) h1 o1 fr' (nstd + kself) 0).
+      apply (CompileCorrect4Base.code_at_app_l prog q
+               [ins0 BYTECODE_COPYGLOB; ins BYTECODE_ID_FUNC_ADDR (Z.of_nat (nstd + kself)) 0]
+               [ins0 BYTECODE_CALL; ins0 BYTECODE_LABEL]). exact (proj1 H3). }
+    apply star_one. cbn [r_gp fr' set_fp]. fold h1'.
+    apply (step_call_frame fr' prog (S (S q)) (length h1) astk retL (r_fp fr) (r_gp fr) 0%nat 0%nat stk h1' o1
+             (r_gp fr) (faddr (nstd + kself)) HCL).
+    - unfold h1'. rewrite nth_error_app2, Nat.sub_diag by lia. reflexivity.
+    - apply (po_nz _ Hpo _ _ Hk).
+    - reflexivity. }
+  destruct r as [cb|exb| |]; try exact I.
+  - simpl.
+    destruct Hbody as (h' & o' & m' & a & Hrun & Hm' & HMS' & Hext' & Ho').
+    rewrite fregs_eta in Hrun.
+    apply (post_ok_intro _ _ _ _ _ _ (mk (S retL) (a :: stk) h' o' fr) m' a); simpl; auto.
+    + eapply star_trans; [exact Henter|]. eapply star_snoc; [exact Hrun|]. apply step_label. exact HLB.
+    + subst retL q. lia.
+    + eapply ext_trans; eauto.
+  - simpl.
+    destruct Hbody as (-> & h' & t & m' & Hrun & HMS' & Hext'). split; [reflexivity|].
+    exists (mk (hsearch (x_tab X) (Nat.pred retL) 0) (t :: stk) h' (out st')
+               {| r_fp := r_fp fr; r_gp := r_gp fr; r_exc := Some ExDivision; r_frames := r_frames fr |}), (Nat.pred retL), m', (r_fp fr).
+    split; [eapply star_trans; [exact Henter | exact Hrun]|].
+    split; [subst retL q; simpl; lia|]. split; [reflexivity|]. split; [reflexivity|].
+    split; [reflexivity|]. split; [exists t, []; reflexivity|]. split; [reflexivity|].
+    split; [exact HMS' | eapply ext_trans; eauto].
+Qed.
+
+(* the callee is a name that is not a top-level function: a function value in scope, or the running function *)
+Lemma case_ECall_var : forall fr k g args, fsig_lookup g FS = None ->
+  expr_spec fc gl k -> body_spec k -> expr_case_at fr fc gl (S k) (ECall (EVar g) args).
+Proof.
+  intros fr k g args Hs IH IHb env st r st' He sc HF prog L ce ip stk h o m Hc HMS Hout Hem.
+  rewrite in_F_call, Hs in HF.
+  apply andb_true_iff in HF; destruct HF as [HF Hcal].
+  apply andb_true_iff in HF; destruct HF as [_ Fargs].
+  apply andb_true_iff in Hcal; destruct Hcal as [_ Hcal].
+  destruct (mem_id g sc) eqn:Eg.
+  - eapply call_val; eauto.
+  - cbn [orb] in Hcal. eapply case_ECall_self; eauto.
 Qed.
 
 End Act2.
@@ -2298,7 +2485,8 @@ Qed.
 Lemma mem_id_app : forall x a b, mem_id x (a ++ b) = mem_id x a || mem_id x b.
 Proof. intros x a b. induction a as [|y t IH]; simpl; [reflexivity|]. rewrite IH. apply orb_assoc. Qed.
 
-Lemma body_env_match : forall kd fd cenv vec gl cs penv astk (m : morph),
+Lemma body_env_match : forall kidx kd fd cenv vec gl cs penv astk (m : morph),
+  nth_error (g_all G) kidx = Some (kd, fd) ->
   Compile4.func_in_P FS TL (g_all G) lv (kd, fd) = true ->
   (kd <> KTop -> is_fname FS (fd_name fd) = false /\
                  forallb (fun x => negb (is_fname FS x)) (fvs_fd TL fd) = true) ->
@@ -2307,18 +2495,19 @@ Lemma body_env_match : forall kd fd cenv vec gl cs penv astk (m : morph),
   env_match_g (ctx_of TL kd fd) vec gl m (penv ++ cenv) (param_env (fd_params fd) 0)
               (body_scope TL kd fd) 0 astk.
 Proof.
-  intros kd fd cenv vec gl cs penv astk m Hok Hnt Hb HF Hg Hact.
+  intros kidx kd fd cenv vec gl cs penv astk m Hk Hok Hnt Hb HF Hg Hact.
   unfold Compile4.func_in_P in Hok. cbn [fst snd] in Hok.
-  apply andb_true_iff in Hok; destruct Hok as [Hok _]. apply andb_true_iff in Hok; destruct Hok as [Hok _].
-  apply andb_true_iff in Hok; destruct Hok as [_ Hpn].
-  split; [|split; [|split; [|split]]].
+  apply andb_true_iff in Hok; destruct Hok as [Hok _].
+  apply andb_true_iff in Hok; destruct Hok as [Hok Hpn]. apply andb_true_iff in Hok; destruct Hok as [_ Hown].
+  apply negb_true_iff in Hown.
+  split; [|split; [|split; [|split; [|split; [|split]]]]].
   - intros x Hx. unfold body_scope in Hx. rewrite mem_id_app in Hx.
     destruct (mem_id x (param_names (fd_params fd))) eqn:Ep.
     + destruct (param_env_names _ _ _ _ m [] Hb HF x Ep) as (i & c & a & H1 & H2 & H3 & H4 & H5).
       exists c, a. split; [rewrite lookup_app, H3; reflexivity|]. split; [exact H4|].
       unfold access. simpl in H1. rewrite H1. split; [exact H2 | exact H5].
     + cbn [orb] in Hx. destruct kd; [discriminate Hx | |];
-        (destruct Hact as (Hin & HF2 & Hnf);
+        (destruct Hact as (Hin & HF2 & Hnf & _);
          apply mem_id_true_In in Hx; destruct (In_nth_error _ _ Hx) as (i & Hi);
          destruct (Forall2_nth_l _ _ _ _ _ HF2 Hi) as (a & Ha & c & Hl & Hm);
          destruct (fvs_fd_props TL fd x Hx) as (P1 & P2 & P3);
@@ -2330,11 +2519,21 @@ Proof.
   - intros x c Hl. rewrite lookup_app in Hl. destruct (lookup x penv) as [c'|] eqn:El.
     + pose proof (bind_params_lookup _ _ _ _ _ Hb El) as Hin.
       rewrite forallb_forall in Hpn. specialize (Hpn x Hin). apply negb_true_iff in Hpn. exact Hpn.
-    + destruct kd; [destruct Hact as [-> _]; discriminate Hl | |]; destruct Hact as (_ & _ & Hnf); eapply Hnf; eauto.
+    + destruct kd; [destruct Hact as [-> _]; discriminate Hl | |]; destruct Hact as (_ & _ & Hnf & _); eapply Hnf; eauto.
   - exact Hg.
   - destruct kd; [left; exact (proj2 Hact) | right; exact (proj1 Hact) | right; exact (proj1 Hact)].
-  - intros x i Hc. apply param_env_clookup_in in Hc.
-    rewrite forallb_forall in Hpn. specialize (Hpn x Hc). apply negb_true_iff in Hpn. exact Hpn.
+  - intros x i Hc. apply param_env_clookup_in in Hc. split.
+    + rewrite forallb_forall in Hpn. specialize (Hpn x Hc). apply negb_true_iff in Hpn. exact Hpn.
+    + unfold body_scope. rewrite mem_id_app. rewrite (In_mem_id_true _ _ Hc). reflexivity.
+  - intros f Hf Hcl. unfold ctx_of in Hf. cbn [fc_self] in Hf. destruct kd; try discriminate Hf. inv Hf.
+    destruct Hact as (Hin & HF2 & Hnf & Hself). destruct (Hself eq_refl) as (cf & Hlc & Hrec).
+    destruct (bind_params_not_param _ _ _ (fd_name fd) Hb Hown) as [Hn1 _].
+    exists cf, kidx, fd, cenv. split; [rewrite lookup_app, Hn1; exact Hlc|]. split; [exact Hrec|].
+    split; [reflexivity|]. split; [exact Hk|]. split; [exact Hin|]. split; [exact HF2 | exact Hnf].
+  - intros f Hf. unfold ctx_of in Hf. cbn [fc_self] in Hf. destruct kd; try discriminate Hf. inv Hf.
+    unfold body_scope. rewrite mem_id_app, Hown. cbn [orb].
+    destruct (mem_id (fd_name fd) (fvs_fd TL fd)) eqn:Em; [|reflexivity]. exfalso.
+    apply mem_id_true_In in Em. destruct (fvs_fd_props TL fd _ Em) as (_ & _ & P3). rewrite N.eqb_refl in P3. discriminate.
 Qed.
 
 Lemma step_rethrow_any : forall prog ip stk h o g e F fs,
@@ -2358,85 +2557,1030 @@ Proof.
   cbn [map app concat]. unfold body_seg. rewrite app_nil_r. cbn [app]. rewrite <- app_assoc. split; reflexivity.
 Qed.
 
-(* one activation: FUNC_DEF; the body; LINE; RET — or a fault: LABEL; RETHROW *)
-Lemma body_of_specs : forall k,
-  (forall fc gl, (forall g, fc_self fc = Some g -> is_fname FS g = false) -> items_spec fc gl k) -> body_spec k.
+Definition good_ctx (fc : fctx) : Prop := forall g, fc_self fc = Some g -> is_fname FS g = false.
+
+Lemma act_rel_ext : forall m m' kd fd cenv vec gl, ext m m' -> act_rel m kd fd cenv vec gl -> act_rel m' kd fd cenv vec gl.
 Proof.
-  intros k IHi kidx kd fd Hk cenv vec gl cs penv st r st' Hb He prog astk h o m e0 F fs Hpo HMS Hout HF Hg Hact.
+  intros m m' kd fd cenv vec gl He H. destruct kd; [exact H | |];
+    (destruct H as (A & B & C & D); split; [eapply ext_vec; eauto|]; split; [|split; [exact C|]];
+     [eapply Forall2_imp; [|exact B]; intros y a (c & Y1 & Y2); exists c; split; [exact Y1 | eapply ext_nth; eauto]
+     | intros E; destruct (D E) as (cf & D1 & D2); exists cf; split; [exact D1 | eapply ext_fcl; eauto]]).
+Qed.
+
+Lemma seg_shape_body : forall (i x y z : rinstr) (b rest : list rinstr),
+  (i :: b ++ [x; y; z]) ++ rest = i :: b ++ x :: y :: z :: rest.
+Proof. intros. simpl. rewrite <- app_assoc. reflexivity. Qed.
+
+Lemma items_spec_mono : forall fc gl k j, (j <= k)%nat -> items_spec fc gl k -> items_spec fc gl j.
+Proof.
+  intros fc gl k j Hle H items env st last r st' He.
+  destruct r as [c|ex| |]; try (intros; exact I).
+  - refine (H items env st last (ROk c) st' _).
+    apply (eval_items_fuel_mono genv j k env st items last (ROk c) st' Hle He). discriminate.
+  - refine (H items env st last (RExc ex) st' _).
+    apply (eval_items_fuel_mono genv j k env st items last (RExc ex) st' Hle He). discriminate.
+Qed.
+
+Lemma seg_at : forall prog fa kf pre seg post,
+  CompileCorrect4Base.code_at prog fa (compile_func FT TL kf) -> fsegs FT TL kf = pre ++ seg :: post ->
+  CompileCorrect4Base.code_at prog (fa + length (concat pre))
+    (seg ++ concat post ++ [ins0 BYTECODE_RETHROW]).
+Proof.
+  intros prog fa kf pre seg post Hc Hs. unfold compile_func in Hc. rewrite Hs, concat_app in Hc.
+  cbn [concat] in Hc. rewrite <- !app_assoc in Hc.
+  apply (CompileCorrect4Base.code_at_app_r _ _ _ _ Hc).
+Qed.
+
+Lemma step_clear_stack : forall fr prog ip top astk h o,
+  nth_error prog ip = Some (ins BYTECODE_CLEAR_STACK (Z.of_nat (length astk)) 0) ->
+  step prog (mk ip (top ++ astk) h o fr) = SNext (mk (S ip) astk h o (set_fp fr 0)).
+Proof.
+  intros. unfold ValueVM4.step. cbn [v_ip v_stk v_heap v_out v_fr ValueVM4.mkst]. rewrite H.
+  cbn [r_op ins r_w0]. rewrite zn_nonneg by lia. rewrite Nat2Z.id, app_length.
+  replace (Nat.leb (length astk) (length top + length astk)) with true by (symmetry; apply Nat.leb_le; lia).
+  replace (length top + length astk - length astk)%nat with (length top) by lia.
+  rewrite skipn_app, skipn_all, Nat.sub_diag. reflexivity.
+Qed.
+
+Lemma step_push_except : forall fr prog ip stk h o e,
+  nth_error prog ip = Some (ins0 BYTECODE_PUSH_EXCEPT) -> r_exc fr = Some e ->
+  step prog (mk ip stk h o fr) = SNext (mk (S ip) (length h :: stk) (h ++ [HInt (exn_no e)]) o fr).
+Proof. intros. unfold ValueVM4.step. simpl. rewrite H. simpl. rewrite H0. reflexivity. Qed.
+
+Lemma exn_match_no : forall ex, exn_eqb ExDivision ex = (exn_no ex =? 1).
+Proof. destruct ex; reflexivity. Qed.
+
+(* the clause segments that remain when the named clauses cs are still to be tried *)
+Definition tail_segs (kd : fkind) (fd : fdef) (cs : list (exn * list item)) : list (list rinstr) :=
+  map (clause_seg FT TL kd fd) cs ++
+  match fd_catch_all fd with Some b => [all_seg FT TL kd fd b] | None => [] end.
+
+Lemma bind_params_length : forall ps cs penv, bind_params ps cs = Some penv -> length cs = length ps.
+Proof.
+  induction ps as [|[[x v] t] ps IH]; intros cs penv Hb; destruct cs; simpl in Hb; try discriminate; [reflexivity|].
+  destruct (bind_params ps cs) eqn:E; [|discriminate]. simpl. f_equal. eapply IH; eauto.
+Qed.
+
+Lemma Forall2_len : forall A B (P : A -> B -> Prop) l1 l2, Forall2 P l1 l2 -> length l1 = length l2.
+Proof. intros A B P l1 l2 H. induction H; simpl; congruence. Qed.
+
+(* one clause block: CLEAR_STACK has been executed, the parameters are the stack, gp is the function's vector *)
+Lemma clause_block : forall k, (forall fc gl, good_ctx fc -> items_spec fc gl k) ->
+  forall kidx kd fd, nth_error (g_all G) kidx = Some (kd, fd) ->
+  forall j body cenv penv st r st', (j <= k)%nat ->
+    eval_items genv j (penv ++ cenv) st body None = (r, st') ->
+    items_F (fc_self (ctx_of TL kd fd)) lv (body_scope TL kd fd) body = true ->
+  forall prog pc astk h o m cs0 vec gl e F fs,
+    pcode_at prog pc (clause_body FT TL kd fd body) ->
+    bind_params (fd_params fd) cs0 = Some penv ->
+    Forall2 (fun c a => mget m c = Some (MA a)) cs0 astk -> genv_ok m -> act_rel m kd fd cenv vec gl ->
+    MS m st h -> o = out st ->
+    concl prog (mk pc astk h o {| r_fp := 0; r_gp := vec; r_exc := e; r_frames := F :: fs |}) pc
+          (length (clause_body FT TL kd fd body)) m r st'.
+Proof.
+  intros k IHi kidx kd fd Hk j body cenv penv st r st' Hj He HFb prog pc astk h o m cs0 vec gl e F fs Hc Hb HF Hg Hact HMS Hout.
+  destruct (funcs_ok kidx (kd, fd) Hk) as [Hfok Hnt]. cbn [fst snd] in Hnt.
+  set (fc := ctx_of TL kd fd).
+  assert (Hself : good_ctx fc).
+  { intros g Hgs. unfold fc, ctx_of in Hgs. cbn [fc_self] in Hgs. destruct kd; try discriminate Hgs.
+    inv Hgs. apply Hnt. discriminate. }
+  assert (IHj : items_spec fc gl j) by (apply (items_spec_mono fc gl k); [assumption | apply IHi; exact Hself]).
+  assert (He' : eval genv (S j) (penv ++ cenv) st (EBlock body) = (r, st')) by (rewrite eval_EBlock; exact He).
+  pose proof (body_env_match kidx kd fd cenv vec gl cs0 penv astk m Hk Hfok Hnt Hb HF Hg Hact) as Hem.
+  exact (case_EBlock {| r_fp := 0; r_gp := vec; r_exc := e; r_frames := F :: fs |} fc gl j body IHj (penv ++ cenv) st r st' He'
+           (body_scope TL kd fd) HFb prog 0 (param_env (fd_params fd) 0) pc astk h o m Hc HMS Hout Hem).
+Qed.
+
+Lemma act_done_star : forall prog s0 s1 m m1 r st' F fs,
+  star prog s0 s1 -> ext m m1 -> act_done prog s1 m1 r st' F fs -> act_done prog s0 m r st' F fs.
+Proof.
+  intros prog s0 s1 m m1 r st' F fs Hst Hext H. destruct r as [c|ex| |]; simpl in *; auto.
+  - destruct H as (h' & o' & m' & a & H1 & H2 & H3 & H4 & H5). exists h', o', m', a.
+    split; [eapply star_trans; eauto|]. split; [exact H2|]. split; [exact H3|].
+    split; [eapply ext_trans; eauto | exact H5].
+  - destruct H as (-> & h' & t & m' & H1 & H2 & H3). split; [reflexivity|]. exists h', t, m'.
+    split; [eapply star_trans; eauto|]. split; [exact H2 | eapply ext_trans; eauto].
+Qed.
+
+(* a finished clause block: RET, or the fault goes on *)
+Lemma concat_snoc_len : forall (pre : list (list rinstr)) seg,
+  length (concat (pre ++ [seg])) = (length (concat pre) + length seg)%nat.
+Proof. intros. rewrite concat_app, app_length. simpl. rewrite app_nil_r. reflexivity. Qed.
+
+Lemma seg_shape_all : forall (i r l w : rinstr) (cb : list rinstr),
+  (i :: cb ++ [r; l]) ++ concat [] ++ [w] = i :: cb ++ [r; l; w].
+Proof. intros. simpl. rewrite <- app_assoc. reflexivity. Qed.
+
+Lemma seg_shape_clause : forall (i1 i2 i3 i4 i5 r l : rinstr) (cb rest : list rinstr),
+  (i1 :: i2 :: i3 :: i4 :: i5 :: cb ++ [r; l]) ++ rest =
+  i1 :: i2 :: i3 :: i4 :: i5 :: cb ++ r :: l :: rest.
+Proof. intros. simpl. rewrite <- app_assoc. reflexivity. Qed.
+
+Lemma handlers_run : forall k, (forall fc gl, good_ctx fc -> items_spec fc gl k) ->
+  forall kidx kd fd, nth_error (g_all G) kidx = Some (kd, fd) ->
+  forall cenv vec gl cs pre, fsegs FT TL (kd, fd) = pre ++ tail_segs kd fd cs ->
+    (forall c, In c cs -> items_F (fc_self (ctx_of TL kd fd)) lv (body_scope TL kd fd) (snd c) = true) ->
+    (forall b, fd_catch_all fd = Some b -> items_F (fc_self (ctx_of TL kd fd)) lv (body_scope TL kd fd) b = true) ->
+  forall j penv st r st', (j <= k)%nat ->
+    handlers genv j (penv ++ cenv) st ExDivision cs (fd_catch_all fd) = (r, st') ->
+  forall prog top astk h o m cs0 fp F fs, prog_ok prog ->
+    bind_params (fd_params fd) cs0 = Some penv ->
+    Forall2 (fun c a => mget m c = Some (MA a)) cs0 astk -> genv_ok m -> act_rel m kd fd cenv vec gl ->
+    MS m st h -> o = out st ->
+    (cs = [] -> fd_catch_all fd = None -> fp = 0%nat) ->
+    act_done prog (mk (faddr (nstd + kidx) + length (concat pre)) (top ++ astk) h o
+                      {| r_fp := fp; r_gp := vec; r_exc := Some ExDivision; r_frames := F :: fs |}) m r st' F fs.
+Proof.
+  intros k IHi kidx kd fd Hk cenv vec gl.
+  set (fa := faddr (nstd + kidx)). set (np := length (fd_params fd)).
+  induction cs as [|[ex' body] t IHcs];
+    intros pre Hsegs Hcs Hall j penv st r st' Hj He prog top astk h o m cs0 fp F fs Hpo Hb HF Hg Hact HMS Hout Hfp.
+  - (* no named clause left *)
+    destruct j as [|j]; [rewrite handlers_O in He; inv He; exact I|]. rewrite handlers_nil in He.
+    pose proof (po_fun _ Hpo kidx (kd, fd) Hk) as Hcode. fold fa in Hcode.
+    assert (Hnp : length astk = np).
+    { rewrite <- (Forall2_len _ _ _ _ _ HF). apply (bind_params_length _ _ _ Hb). }
+    destruct (fd_catch_all fd) as [b|] eqn:Eall.
+    + unfold tail_segs in Hsegs. rewrite Eall in Hsegs. cbn [map app] in Hsegs.
+      pose proof (seg_at prog fa (kd, fd) pre (all_seg FT TL kd fd b) [] Hcode Hsegs) as Hseg.
+      set (A := (fa + length (concat pre))%nat) in *.
+      unfold all_seg in Hseg. fold np in Hseg.
+      set (cb := clause_body FT TL kd fd b) in *. rewrite seg_shape_all in Hseg.
+      pose proof (CompileCorrect4Base.code_at_head _ _ _ _ Hseg) as HCS.
+      pose proof (CompileCorrect4Base.code_at_tail _ _ _ _ Hseg) as H1.
+      pose proof (CompileCorrect4Base.code_at_app_l _ _ _ _ H1) as Hcb.
+      pose proof (CompileCorrect4Base.code_at_app_r _ _ _ _ H1) as H2.
+      pose proof (CompileCorrect4Base.code_at_head _ _ _ _ H2) as HRT.
+      pose proof (CompileCorrect4Base.code_at_head _ _ _ _ (CompileCorrect4Base.code_at_tail _ _ _ _ H2)) as HLB.
+      pose proof (CompileCorrect4Base.code_at_head _ _ _ _
+                   (CompileCorrect4Base.code_at_tail _ _ _ _ (CompileCorrect4Base.code_at_tail _ _ _ _ H2))) as HRW.
+      set (frc := {| r_fp := 0; r_gp := vec; r_exc := Some ExDivision; r_frames := F :: fs |}).
+      assert (H0 : star prog (mk A (top ++ astk) h o {| r_fp := fp; r_gp := vec; r_exc := Some ExDivision; r_frames := F :: fs |})
+                        (mk (S A) astk h o frc)).
+      { apply star_one. rewrite <- Hnp in HCS. rewrite (step_clear_stack _ prog A top astk h o HCS). reflexivity. }
+      assert (Hlenseg : length (all_seg FT TL kd fd b) = (length cb + 3)%nat).
+      { unfold all_seg. fold cb. cbn [length]. rewrite app_length. cbn [length]. lia. }
+      pose proof (clause_block k IHi kidx kd fd Hk j b cenv penv st r st' ltac:(lia) He (Hall b eq_refl) prog (S A) astk h o m cs0
+                    vec gl (Some ExDivision) F fs (conj Hcb Hpo) Hb HF Hg Hact HMS Hout) as Hx. fold cb frc in Hx.
+      destruct r as [c|ex| |]; simpl in Hx |- *; auto.
+      * destruct Hx as (s1 & m1 & a & Hst1 & Hip1 & Hstk1 & Hm1 & HMS1 & Hext1 & Hout1 & Hfr1).
+        destruct s1 as [ip1 stk1 h1 o1 fr1]; simpl in Hip1, Hstk1, HMS1, Hout1, Hfr1; subst ip1 stk1 fr1.
+        exists h1, o1, m1, a. split; [|auto].
+        eapply star_trans; [exact H0|]. eapply star_snoc; [exact Hst1|]. apply step_ret_frame. exact HRT.
+      * destruct Hx as (-> & s1 & fip & m1 & fp' & Hst1 & Hrng & Hip1 & Hfr1 & Hrt & (t0 & top' & Hstk1) & Hout1 & HMS1 & Hext1).
+        split; [reflexivity|].
+        destruct s1 as [ip1 stk1 h1 o1 fr1]; simpl in Hip1, Hstk1, Hout1, Hfr1, Hrt, HMS1; subst stk1 o1 fr1.
+        rewrite (po_tab _ Hpo kidx (kd, fd) pre (all_seg FT TL kd fd b) [] fip Hk Hsegs) in Hip1
+          by (fold fa; fold A; rewrite Hlenseg; lia).
+        fold fa in Hip1. fold A in Hip1. rewrite Hlenseg in Hip1.
+        replace (A + (length cb + 3) - 1)%nat with (S (S A + length cb)) in Hip1 by lia. subst ip1.
+        assert (Hir : is_rethrow prog (S (S A + length cb)) = true).
+        { unfold is_rethrow. rewrite HLB, HRW. reflexivity. }
+        specialize (Hrt Hir). subst fp'.
+        destruct (step_rethrow_any prog (S (S (S A + length cb))) (t0 :: top' ++ astk) h1 (out st') vec (Some ExDivision) F fs HRW)
+          as (t1 & Hrw).
+        exists h1, t1, m1. split; [|split; [exact HMS1 | exact Hext1]].
+        eapply star_trans; [exact H0|]. eapply star_trans; [exact Hst1|].
+        eapply star_step; [apply (step_label _ prog (S (S A + length cb))); exact HLB|].
+        apply star_one. exact Hrw.
+    + inv He. unfold tail_segs in Hsegs. rewrite Eall in Hsegs. cbn [map app] in Hsegs. rewrite app_nil_r in Hsegs.
+      unfold compile_func in Hcode. rewrite Hsegs in Hcode.
+      pose proof (CompileCorrect4Base.code_at_head _ _ _ _ (CompileCorrect4Base.code_at_app_r _ _ _ _ Hcode)) as HRW.
+      rewrite (Hfp eq_refl eq_refl). simpl. split; [reflexivity|].
+      destruct (step_rethrow_any prog (fa + length (concat pre)) (top ++ astk) h (out st') vec (Some ExDivision) F fs HRW)
+        as (t1 & Hrw).
+      exists h, t1, m. split; [apply star_one; exact Hrw|]. split; [exact HMS | apply ext_refl].
+  - (* a named clause *)
+    destruct j as [|j]; [rewrite handlers_O in He; inv He; exact I|]. rewrite handlers_cons in He.
+    pose proof (po_fun _ Hpo kidx (kd, fd) Hk) as Hcode. fold fa in Hcode.
+    assert (Hnp : length astk = np).
+    { rewrite <- (Forall2_len _ _ _ _ _ HF). apply (bind_params_length _ _ _ Hb). }
+    assert (Hsegs' : fsegs FT TL (kd, fd) = pre ++ clause_seg FT TL kd fd (ex', body) :: tail_segs kd fd t) by exact Hsegs.
+    pose proof (seg_at prog fa (kd, fd) pre _ _ Hcode Hsegs') as Hseg.
+    set (A := (fa + length (concat pre))%nat) in *.
+    unfold clause_seg in Hseg. cbn [fst snd] in Hseg. fold np in Hseg.
+    set (cb := clause_body FT TL kd fd body) in *. rewrite seg_shape_clause in Hseg.
+    pose proof (CompileCorrect4Base.code_at_head _ _ _ _ Hseg) as HCS.
+    pose proof (CompileCorrect4Base.code_at_tail _ _ _ _ Hseg) as T1.
+    pose proof (CompileCorrect4Base.code_at_head _ _ _ _ T1) as HIN.
+    pose proof (CompileCorrect4Base.code_at_tail _ _ _ _ T1) as T2.
+    pose proof (CompileCorrect4Base.code_at_head _ _ _ _ T2) as HPE.
+    pose proof (CompileCorrect4Base.code_at_tail _ _ _ _ T2) as T3.
+    pose proof (CompileCorrect4Base.code_at_head _ _ _ _ T3) as HEQ.
+    pose proof (CompileCorrect4Base.code_at_tail _ _ _ _ T3) as T4.
+    pose proof (CompileCorrect4Base.code_at_head _ _ _ _ T4) as HJZ.
+    pose proof (CompileCorrect4Base.code_at_tail _ _ _ _ T4) as T5.
+    pose proof (CompileCorrect4Base.code_at_app_l _ _ _ _ T5) as Hcb.
+    pose proof (CompileCorrect4Base.code_at_app_r _ _ _ _ T5) as T6.
+    pose proof (CompileCorrect4Base.code_at_head _ _ _ _ T6) as HRT.
+    pose proof (CompileCorrect4Base.code_at_head _ _ _ _ (CompileCorrect4Base.code_at_tail _ _ _ _ T6)) as HLB.
+    set (frc := {| r_fp := 0; r_gp := vec; r_exc := Some ExDivision; r_frames := F :: fs |}).
+    set (h3 := ((h ++ [HInt (exn_no ex')]) ++ [HInt (exn_no ExDivision)]) ++ [HInt (b2z (exn_no ex' =? 1))]).
+    assert (Hlenseg : length (clause_seg FT TL kd fd (ex', body)) = (length cb + 7)%nat).
+    { unfold clause_seg. cbn [fst snd]. fold cb. cbn [length]. rewrite app_length. cbn [length]. lia. }
+    assert (Hpro : star prog (mk A (top ++ astk) h o {| r_fp := fp; r_gp := vec; r_exc := Some ExDivision; r_frames := F :: fs |})
+                        (mk (S (S (S (S A)))) (length ((h ++ [HInt (exn_no ex')]) ++ [HInt (exn_no ExDivision)]) :: astk) h3 o frc)).
+    { eapply star_step. { rewrite <- Hnp in HCS. rewrite (step_clear_stack _ prog A top astk h o HCS). reflexivity. }
+      change (set_fp {| r_fp := fp; r_gp := vec; r_exc := Some ExDivision; r_frames := F :: fs |} 0) with frc.
+      eapply star_step; [apply (step_int frc prog (S A) astk h o (exn_no ex') 0); exact HIN|].
+      eapply star_step; [apply (step_push_except frc _ _ _ _ _ ExDivision HPE); reflexivity|].
+      apply star_one.
+      rewrite (step_binop frc prog (S (S (S A))) astk ((h ++ [HInt (exn_no ex')]) ++ [HInt (exn_no ExDivision)]) o Eq
+                 (length (h ++ [HInt (exn_no ex')])) (length h) (exn_no ex') (exn_no ExDivision) eq_refl HEQ).
+      - reflexivity.
+      - unfold hint. rewrite nth_error_app1 by (rewrite app_length; simpl; lia).
+        rewrite nth_error_app2, Nat.sub_diag by lia. reflexivity.
+      - unfold hint. rewrite nth_error_app2, Nat.sub_diag by lia. reflexivity. }
+    assert (HMS3 : MS m st h3) by (unfold h3; repeat apply MS_heap_app; exact HMS).
+    assert (Hp3 : hint h3 (length ((h ++ [HInt (exn_no ex')]) ++ [HInt (exn_no ExDivision)])) = Some (b2z (exn_no ex' =? 1))).
+    { unfold hint, h3. rewrite nth_error_app2, Nat.sub_diag by lia. reflexivity. }
+    rewrite exn_match_no in He.
+    assert (Hpost : fsegs FT TL (kd, fd) = (pre ++ [clause_seg FT TL kd fd (ex', body)]) ++ tail_segs kd fd t).
+    { rewrite <- app_assoc. exact Hsegs'. }
+    assert (Hcs' : forall c, In c t -> items_F (fc_self (ctx_of TL kd fd)) lv (body_scope TL kd fd) (snd c) = true).
+    { intros c Hc. apply Hcs. right. exact Hc. }
+    assert (HAnext : (fa + length (concat (pre ++ [clause_seg FT TL kd fd (ex', body)])) = S (S (S (S (S (S (S A))))) + length cb))%nat).
+    { rewrite concat_snoc_len, Hlenseg. fold A. lia. }
+    destruct (exn_no ex' =? 1) eqn:Em.
+    + (* the clause matches *)
+      assert (Hin : star prog (mk A (top ++ astk) h o {| r_fp := fp; r_gp := vec; r_exc := Some ExDivision; r_frames := F :: fs |})
+                         (mk (S (S (S (S (S A))))) astk h3 o frc)).
+      { eapply star_snoc; [exact Hpro|]. eapply (step_jumpz_nonzero frc); [exact HJZ | exact Hp3 | simpl; lia]. }
+      destruct (eval_items genv j (penv ++ cenv) st body None) as [r1 st1] eqn:Eb.
+      pose proof (clause_block k IHi kidx kd fd Hk j body cenv penv st r1 st1 ltac:(lia) Eb (Hcs (ex', body) (or_introl eq_refl))
+                    prog (S (S (S (S (S A))))) astk h3 o m cs0 vec gl (Some ExDivision) F fs (conj Hcb Hpo) Hb HF Hg Hact HMS3 Hout) as Hx.
+      fold cb frc in Hx.
+      destruct r1 as [c|ex| |]; simpl in Hx.
+      * inv He. simpl.
+        destruct Hx as (s1 & m1 & a & Hst1 & Hip1 & Hstk1 & Hm1 & HMS1 & Hext1 & Hout1 & Hfr1).
+        destruct s1 as [ip1 stk1 h1 o1 fr1]; simpl in Hip1, Hstk1, HMS1, Hout1, Hfr1; subst ip1 stk1 fr1.
+        exists h1, o1, m1, a. split; [|auto].
+        eapply star_trans; [exact Hin|]. eapply star_snoc; [exact Hst1|]. apply step_ret_frame. exact HRT.
+      * destruct Hx as (-> & s1 & fip & m1 & fp' & Hst1 & Hrng & Hip1 & Hfr1 & Hrt & (t0 & top' & Hstk1) & Hout1 & HMS1 & Hext1).
+        destruct s1 as [ip1 stk1 h1 o1 fr1]; simpl in Hip1, Hstk1, Hout1, Hfr1, Hrt, HMS1; subst stk1 o1 fr1.
+        rewrite (po_tab _ Hpo kidx (kd, fd) pre _ _ fip Hk Hsegs') in Hip1
+          by (fold fa; fold A; rewrite Hlenseg; lia).
+        fold fa in Hip1. fold A in Hip1. rewrite Hlenseg in Hip1.
+        replace (A + (length cb + 7) - 1)%nat with (S (S (S (S (S (S A)))) + length cb)) in Hip1 by lia. subst ip1.
+        assert (Hfp' : t = [] -> fd_catch_all fd = None -> fp' = 0%nat).
+        { intros -> Hn. apply Hrt. unfold is_rethrow. rewrite HLB.
+          unfold tail_segs in T6. rewrite Hn in T6. cbn [map app concat] in T6.
+          rewrite (CompileCorrect4Base.code_at_head _ _ _ _
+                     (CompileCorrect4Base.code_at_tail _ _ _ _ (CompileCorrect4Base.code_at_tail _ _ _ _ T6))).
+          reflexivity. }
+        pose proof (IHcs (pre ++ [clause_seg FT TL kd fd (ex', body)]) Hpost Hcs' Hall j penv st1 r st' ltac:(lia) He
+                      prog (t0 :: top') astk h1 (out st1) m1 cs0 fp' F fs Hpo Hb
+                      (Forall2_ext_m _ _ _ _ Hext1 HF)
+                      (fun g gd Hgd => match Hg g gd Hgd with ex_intro _ cg (conj Hl Hm) =>
+                                         ex_intro _ cg (conj Hl (ext_nth _ _ _ _ Hext1 Hm)) end)
+                      (act_rel_ext _ _ _ _ _ _ _ Hext1 Hact)
+                      HMS1 eq_refl Hfp') as Hrest.
+        fold fa in Hrest. rewrite HAnext in Hrest.
+        eapply act_done_star; [| exact Hext1 | exact Hrest].
+        eapply star_trans; [exact Hin|]. eapply star_snoc; [exact Hst1|].
+        apply (step_label _ prog (S (S (S (S (S (S A)))) + length cb))). exact HLB.
+      * inv He. exact I.
+      * inv He. exact I.
+    + (* another exception is named: the next clause *)
+      assert (Hjz : star prog (mk A (top ++ astk) h o {| r_fp := fp; r_gp := vec; r_exc := Some ExDivision; r_frames := F :: fs |})
+                         (mk (S (S (S (S (S (S (S A))))) + length cb)) astk h3 o frc)).
+      { eapply star_snoc; [exact Hpro|].
+        eapply (step_jumpz_to frc); [exact HJZ | exact Hp3 | unfold len; lia]. }
+      pose proof (IHcs (pre ++ [clause_seg FT TL kd fd (ex', body)]) Hpost Hcs' Hall j penv st r st' ltac:(lia) He
+                    prog [] astk h3 o m cs0 0%nat F fs Hpo Hb HF Hg Hact HMS3 Hout (fun _ _ => eq_refl)) as Hrest.
+      fold fa in Hrest. rewrite HAnext in Hrest. cbn [app] in Hrest.
+      eapply act_done_star; [exact Hjz | apply ext_refl | exact Hrest].
+Qed.
+
+
+(* ---- expressions in tail position of a function --------------------------------------------------
+   The activation of function fd runs with r_fp = 0 (no MARK pending: a tail position is never inside
+   an argument list), its caller suspended in the first frame F.  An expression in tail position
+   either ends like any other (its value pushed) or, through a self tail call that reuses the
+   frame, the whole activation has already RETurned / RETHROWn to the caller. *)
+Section Tail.
+Variables (kidx : nat) (kd : fkind) (fd : fdef).
+Hypothesis Hk : nth_error (g_all G) kidx = Some (kd, fd).
+Variable gl : list nat.
+Local Notation fc := (ctx_of TL kd fd).
+Local Notation self := (tail_self kd fd).
+Hypothesis Hgood : good_ctx fc.
+
+Definition mkfr (g : nat) (e0 : option exn) (F : frame) (fs : list frame) : fregs :=
+  {| r_fp := 0; r_gp := g; r_exc := e0; r_frames := F :: fs |}.
+
+Definition returned (prog : list rinstr) (s : vstate) (m : morph) (c : nat) (st' : state)
+  (e0 : option exn) (F : frame) (fs : list frame) : Prop :=
+  exists h' o' m' a,
+    star prog s (mk (f_ret F) (a :: f_below F) h' o' {| r_fp := f_fp F; r_gp := f_gp F; r_exc := f_exc F; r_frames := fs |}) /\
+    mget m' c = Some (MA a) /\ MS m' st' h' /\ ext m m' /\ o' = out st'.
+
+Definition rethrown (prog : list rinstr) (s : vstate) (m : morph) (st' : state) (F : frame)
+  (fs : list frame) : Prop :=
+  exists h' t m',
+    star prog s (mk (hsearch (x_tab X) (Nat.pred (f_ret F)) 0) (t :: f_below F) h' (out st')
+                    {| r_fp := f_fp F; r_gp := f_gp F; r_exc := Some ExDivision; r_frames := fs |}) /\
+    MS m' st' h' /\ ext m m'.
+
+Definition tconcl (prog : list rinstr) (s : vstate) (pc n : nat) (m : morph) (r : res) (st' : state)
+  (e0 : option exn) (F : frame) (fs : list frame) : Prop :=
+  match r with
+  | ROk c => post_ok prog s (pc + n) m c st' \/ returned prog s m c st' e0 F fs
+  | RExc ex => ex = ExDivision /\ (raises prog s pc (pc + n) m st' \/ rethrown prog s m st' F fs)
+  | _ => True
+  end.
+
+Lemma concl_tconcl : forall prog s pc n m r st' e0 F fs,
+  concl prog s pc n m r st' -> tconcl prog s pc n m r st' e0 F fs.
+Proof. intros. destruct r; simpl in *; auto. destruct H. auto. Qed.
+
+(* a run in front (same stack, same registers) and pure control steps behind *)
+Lemma tconcl_lift : forall prog s s1 pc n pc1 n1 m m1 r st' e0 F fs,
+  star prog s s1 -> v_fr s1 = v_fr s -> v_stk s1 = v_stk s -> ext m m1 ->
+  (pc <= pc1)%nat -> (pc1 + n1 <= pc + n)%nat ->
+  (forall stk2 h2 o2 fr2, star prog (mk (pc1 + n1) stk2 h2 o2 fr2) (mk (pc + n) stk2 h2 o2 fr2)) ->
+  tconcl prog s1 pc1 n1 m1 r st' e0 F fs -> tconcl prog s pc n m r st' e0 F fs.
+Proof.
+  intros prog s s1 pc n pc1 n1 m m1 r st' e0 F fs Hst Hfr Hstk Hext Hlo Hhi Hfin H.
+  destruct r as [c|ex| |]; simpl in *; auto.
+  - destruct H as [(s2 & m2 & a & H1 & H2 & H3 & H4 & H5 & H6 & H7 & H8) | (h' & o' & m' & a & H1 & H2 & H3 & H4 & H5)].
+    + left. destruct s2 as [ip2 stk2 h2 o2 fr2]. simpl in H2, H3, H7, H8. subst ip2.
+      exists (mk (pc + n) stk2 h2 o2 fr2), m2, a. simpl.
+      split; [eapply star_trans; [exact Hst|]; eapply star_trans; [exact H1 | apply Hfin]|].
+      split; [reflexivity|]. split; [congruence|]. split; [exact H4|]. split; [exact H5|].
+      split; [eapply ext_trans; eauto|]. split; [exact H7 | congruence].
+    + right. exists h', o', m', a. split; [eapply star_trans; eauto|]. split; [exact H2|].
+      split; [exact H3|]. split; [eapply ext_trans; eauto | exact H5].
+  - destruct H as (-> & [Hr | (h' & t & m' & H1 & H2 & H3)]); split; auto.
+    + left. eapply raises_star; [exact Hst | exact Hfr | exists []; simpl; congruence
+                                | eapply raises_weaken; [exact Hr | lia | lia] | exact Hext].
+    + right. exists h', t, m'. split; [eapply star_trans; eauto|]. split; [exact H2 | eapply ext_trans; eauto].
+Qed.
+
+Definition tail_case (k : nat) (e : expr) : Prop :=
+  forall env st r st', eval genv k env st e = (r, st') ->
+  forall sc, in_F (fc_self fc) lv sc e = true ->
+  forall prog pc L ce stk h o m g e0 F fs,
+    code_at prog pc (Compile4.cexpr FT TL fc self true L ce e) ->
+    MS m st h -> o = out st -> env_match_g fc g gl m env ce sc L stk ->
+    Z.of_nat (length stk) = L + Z.of_nat (length (fd_params fd)) ->
+    tconcl prog (mk pc stk h o (mkfr g e0 F fs)) pc
+           (length (Compile4.cexpr FT TL fc self true L ce e)) m r st' e0 F fs.
+
+Definition tail_spec (k : nat) : Prop := forall e, tail_case k e.
+
+Lemma tcase_ECond : forall k c a b, expr_spec fc gl k -> tail_spec k -> tail_case (S k) (ECond c a b).
+Proof.
+  intros k c a b IH IHt env st r st' He sc HF prog ip L ce stk h o m g e0 F fs Hc HMS Hout Hem Hlen.
+  set (frc := mkfr g e0 F fs) in *.
+  simpl in HF.
+  apply andb_true_iff in HF; destruct HF as [HF Fb].
+  apply andb_true_iff in HF; destruct HF as [HF Fa].
+  apply andb_true_iff in HF; destruct HF as [_ Fc].
+  rewrite eval_ECond in He.
+  change (Compile4.cexpr FT TL fc self true L ce (ECond c a b)) with
+    (compile_expr fc L ce c ++ ins BYTECODE_JUMPZ (len (Compile4.cexpr FT TL fc self true L ce a) + 2) 0 ::
+     Compile4.cexpr FT TL fc self true L ce a ++
+     ins BYTECODE_JUMP (len (Compile4.cexpr FT TL fc self true L ce b) + 2) 0 :: ins0 BYTECODE_LABEL ::
+     Compile4.cexpr FT TL fc self true L ce b ++ [ins0 BYTECODE_LABEL]) in *.
+  set (cc := compile_expr fc L ce c) in *. set (ca := Compile4.cexpr FT TL fc self true L ce a) in *.
+  set (cb := Compile4.cexpr FT TL fc self true L ce b) in *.
+  assert (Htot : length (cc ++ ins BYTECODE_JUMPZ (len ca + 2) 0 :: ca ++
+                    ins BYTECODE_JUMP (len cb + 2) 0 :: ins0 BYTECODE_LABEL :: cb ++ [ins0 BYTECODE_LABEL])
+            = (length cc + length ca + length cb + 4)%nat).
+  { rewrite !app_length. simpl. rewrite !app_length. simpl. rewrite app_length. simpl. lia. }
+  rewrite Htot.
+  pose proof (code_at_app_l _ _ _ _ Hc) as Hcc.
+  pose proof (code_at_app_r _ _ _ _ Hc) as H1.
+  pose proof (code_at_head _ _ _ _ H1) as HJZ.
+  pose proof (code_at_tail _ _ _ _ H1) as H2.
+  pose proof (code_at_app_l _ _ _ _ H2) as Hca.
+  pose proof (code_at_app_r _ _ _ _ H2) as H3.
+  pose proof (code_at_head _ _ _ _ H3) as HJ.
+  pose proof (code_at_tail _ _ _ _ (code_at_tail _ _ _ _ H3)) as H4.
+  pose proof (code_at_app_l _ _ _ _ H4) as Hcb.
+  pose proof (code_at_head _ _ _ _ (code_at_app_r _ _ _ _ H4)) as HL.
+  destruct (eval genv k env st c) as [r1 st1] eqn:Ec.
+  pose proof (IH c _ _ _ _ Ec sc Fc prog ip L ce (mk ip stk h o frc) m Hcc eq_refl HMS Hout Hem) as Hcnd.
+  fold cc in Hcnd.
+  destruct r1 as [c1|ex| |]; simpl in Hcnd; [| inv He; simpl | inv He; exact I | inv He; exact I].
+  2:{ destruct Hcnd as [-> Hr]. split; [reflexivity|]. left. eapply raises_weaken; [exact Hr | lia | lia]. }
+  destruct Hcnd as (s1 & m1 & a1 & Hst1 & Hip1 & Hstk1 & Hm1 & HMS1 & Hext1 & Hout1 & Hfr1).
+  destruct s1 as [ip1 stk1 h1 o1 fr1]; simpl in Hip1, Hstk1, HMS1, Hout1, Hfr1; subst ip1 stk1 fr1.
+  destruct (get_bool st1 c1) as [bv|] eqn:Eg; [|inv He; exact I].
+  pose proof (MS_payload_bool _ _ _ _ _ _ HMS1 Hm1 Eg) as Hp.
+  pose proof (env_match_ext _ _ _ _ _ _ _ _ _ _ Hem Hext1) as Hem1.
+  destruct bv.
+  - assert (Hj : star prog (mk ip stk h o frc) (mk (S (ip + length cc)) stk h1 o1 frc)).
+    { eapply star_snoc; [exact Hst1|]. eapply (step_jumpz_nonzero frc); eauto. simpl. lia. }
+    pose proof (IHt a _ _ _ _ He sc Fa prog (S (ip + length cc)) L ce stk h1 o1 m1 g e0 F fs
+                  Hca HMS1 Hout1 Hem1 Hlen) as Ha.
+    fold ca frc in Ha.
+    eapply (tconcl_lift _ _ _ _ _ (S (ip + length cc)) (length ca)); [exact Hj | reflexivity | reflexivity | exact Hext1 | lia | lia | | exact Ha].
+    intros stk2 h2 o2 fr2. apply star_one.
+    rewrite (step_jump_fwd fr2 _ _ _ _ _ _ _ HJ) by (unfold len; lia).
+    f_equal. f_equal. unfold len. lia.
+  - assert (Hj : star prog (mk ip stk h o frc) (mk (S (S (S (ip + length cc) + length ca))) stk h1 o1 frc)).
+    { eapply star_snoc; [exact Hst1|].
+      rewrite (step_jumpz_zero frc _ _ _ _ _ _ _ _ HJZ Hp) by (unfold len; lia).
+      f_equal. f_equal. unfold len. lia. }
+    pose proof (IHt b _ _ _ _ He sc Fb prog (S (S (S (ip + length cc) + length ca))) L ce stk h1 o1 m1 g e0 F fs
+                  Hcb HMS1 Hout1 Hem1 Hlen) as Hb.
+    fold cb frc in Hb.
+    eapply (tconcl_lift _ _ _ _ _ (S (S (S (ip + length cc) + length ca))) (length cb)); [exact Hj | reflexivity | reflexivity | exact Hext1 | lia | lia | | exact Hb].
+    intros stk2 h2 o2 fr2. apply star_one.
+    replace (ip + (length cc + length ca + length cb + 4))%nat
+      with (S (S (S (S (ip + length cc) + length ca)) + length cb)) by lia.
+    apply step_label. exact HL.
+Qed.
+
+(* blocks in tail position: the last expression item is in tail position *)
+Local Notation compile_items_tl := (Compile4.compile_items_tl FT TL fc).
+Local Notation compile_items_tl_let := (Compile4.compile_items_tl_let FT TL fc).
+Local Notation compile_items_tl_var := (Compile4.compile_items_tl_var FT TL fc).
+Local Notation compile_items_tl_last := (Compile4.compile_items_tl_last FT TL fc).
+Local Notation compile_items_tl_expr := (Compile4.compile_items_tl_expr FT TL fc).
+Local Notation cexpr_block_tl := (Compile4.cexpr_block_tl FT TL fc).
+
+Definition titems_concl (prog : list rinstr) (s : vstate) (pc : nat) (code : list rinstr) (nb : Z)
+  (m : morph) (r : res) (st' : state) (e0 : option exn) (F : frame) (fs : list frame) : Prop :=
+  match r with
+  | ROk c =>
+    (exists s' m' a locals, star prog s s' /\ v_ip s' = (pc + length code)%nat /\
+       v_stk s' = a :: locals ++ v_stk s /\ Z.of_nat (length locals) = nb /\
+       mget m' c = Some (MA a) /\ MS m' st' (v_heap s') /\ ext m m' /\ v_out s' = out st' /\
+       v_fr s' = v_fr s) \/
+    returned prog s m c st' e0 F fs
+  | RExc ex => ex = ExDivision /\ (raises prog s pc (pc + length code) m st' \/ rethrown prog s m st' F fs)
+  | _ => True
+  end.
+
+Lemma titems_lift : forall prog s s1 pre pc code pc1 code1 nb1 m m1 r st' e0 F fs,
+  star prog s s1 -> v_fr s1 = v_fr s -> v_stk s1 = pre ++ v_stk s -> ext m m1 ->
+  (pc <= pc1)%nat -> (pc1 + length code1 = pc + length code)%nat ->
+  titems_concl prog s1 pc1 code1 nb1 m1 r st' e0 F fs ->
+  titems_concl prog s pc code (nb1 + Z.of_nat (length pre)) m r st' e0 F fs.
+Proof.
+  intros prog s s1 pre pc code pc1 code1 nb1 m m1 r st' e0 F fs Hst Hfr Hstk Hext Hlo Hend H.
+  destruct r as [c|ex| |]; simpl in *; auto.
+  - destruct H as [(s2 & m2 & a & locals & H1 & H2 & H3 & H4 & H5 & H6 & H7 & H8 & H9) | (h' & o' & m' & a & H1 & H2 & H3 & H4 & H5)].
+    + left. exists s2, m2, a, (locals ++ pre). split; [eapply star_trans; eauto|].
+      split; [lia|]. split; [rewrite H3, Hstk, app_assoc; reflexivity|].
+      split; [rewrite app_length; lia|]. split; [exact H5|]. split; [exact H6|].
+      split; [eapply ext_trans; eauto|]. split; [exact H8 | congruence].
+    + right. exists h', o', m', a. split; [eapply star_trans; eauto|]. split; [exact H2|].
+      split; [exact H3|]. split; [eapply ext_trans; eauto | exact H5].
+  - destruct H as (-> & [Hr | (h' & t & m' & H1 & H2 & H3)]); split; auto.
+    + left. eapply raises_star; [exact Hst | exact Hfr | exists pre; exact Hstk
+                                | eapply raises_weaken; [exact Hr | lia | lia] | exact Hext].
+    + right. exists h', t, m'. split; [eapply star_trans; eauto|]. split; [exact H2 | eapply ext_trans; eauto].
+Qed.
+
+Definition titems_spec (k : nat) : Prop :=
+  forall items env st last r st', eval_items genv k env st items last = (r, st') ->
+  forall sc, items_F (fc_self fc) lv sc items = true ->
+  forall prog pc L ce stk h o m g e0 F fs,
+    code_at prog pc (compile_items_tl self L ce items) ->
+    MS m st h -> o = out st -> env_match_g fc g gl m env ce sc L stk ->
+    Z.of_nat (length stk) = L + Z.of_nat (length (fd_params fd)) ->
+    titems_concl prog (mk pc stk h o (mkfr g e0 F fs)) pc
+      (compile_items_tl self L ce items) (nbinds items) m r st' e0 F fs.
+
+Lemma titems_bind_step : forall k x e t, expr_spec fc gl k -> titems_spec k ->
+  forall env st r st',
+  match eval genv k env st e with
+  | (ROk c, st1) => eval_items genv k ((x, c) :: env) st1 t (Some c)
+  | r => r end = (r, st') ->
+  forall sc, negb (is_fname FS x) && negb (self_is (fc_self fc) x) && in_F (fc_self fc) lv sc e && items_F (fc_self fc) lv (x :: sc) t = true ->
+  forall prog pc L ce stk h o m g e0 F fs,
+    code_at prog pc (compile_expr fc L ce e ++ compile_items_tl self (L + 1) ((x, L + 1) :: ce) t) ->
+    MS m st h -> o = out st -> env_match_g fc g gl m env ce sc L stk ->
+    Z.of_nat (length stk) = L + Z.of_nat (length (fd_params fd)) ->
+    titems_concl prog (mk pc stk h o (mkfr g e0 F fs)) pc
+      (compile_expr fc L ce e ++ compile_items_tl self (L + 1) ((x, L + 1) :: ce) t)
+      (1 + nbinds t) m r st' e0 F fs.
+Proof.
+  intros k x e t IHe IHi env st r st' He sc HF prog ip L ce stk h o m g e0 F fs Hc HMS Hout Hem Hlen.
+  set (frc := mkfr g e0 F fs) in *.
+  apply andb_true_iff in HF; destruct HF as [HF Ft].
+  apply andb_true_iff in HF; destruct HF as [HF Fe].
+  apply andb_true_iff in HF; destruct HF as [Hnx Hsx]. apply negb_true_iff in Hnx. apply negb_true_iff in Hsx.
+  set (ca := compile_expr fc L ce e) in *.
+  set (ct := compile_items_tl self (L + 1) ((x, L + 1) :: ce) t) in *.
+  destruct (eval genv k env st e) as [r1 st1] eqn:Ea.
+  pose proof (IHe e _ _ _ _ Ea sc Fe prog ip L ce (mk ip stk h o frc) m
+                (code_at_app_l _ _ _ _ Hc) eq_refl HMS Hout Hem) as Ha. fold ca in Ha.
+  destruct r1 as [c1|ex| |]; simpl in Ha; [| inv He; simpl | inv He; exact I | inv He; exact I].
+  2:{ destruct Ha as [-> Hr]. split; [reflexivity|]. left.
+      eapply raises_weaken; [exact Hr | lia | rewrite app_length; lia]. }
+  destruct Ha as (s1 & m1 & a1 & Hst1 & Hip1 & Hstk1 & Hm1 & HMS1 & Hext1 & Hout1 & Hfr1).
+  destruct s1 as [ip1 stk1 h1 o1 fr1]; simpl in Hip1, Hstk1, HMS1, Hout1, Hfr1; subst ip1 stk1 fr1.
+  assert (Hlen1 : Z.of_nat (length (a1 :: stk)) = L + 1 + Z.of_nat (length (fd_params fd))) by (simpl length; lia).
+  pose proof (IHi t _ _ _ _ _ He (x :: sc) Ft prog (ip + length ca)%nat (L + 1) ((x, L + 1) :: ce)
+                (a1 :: stk) h1 o1 m1 g e0 F fs (code_at_app_r _ _ _ _ Hc) HMS1 Hout1
+                (env_match_bind _ _ _ _ _ _ _ _ _ x c1 a1 (env_match_ext _ _ _ _ _ _ _ _ _ _ Hem Hext1) Hm1 Hnx Hsx) Hlen1) as Ht.
+  fold ct frc in Ht.
+  replace (1 + nbinds t) with (nbinds t + Z.of_nat (length [a1])) by (simpl length; lia).
+  eapply (titems_lift _ _ _ [a1] _ _ (ip + length ca)%nat ct); [exact Hst1 | reflexivity | reflexivity | exact Hext1 | lia | rewrite app_length; lia | exact Ht].
+Qed.
+
+Lemma titems_run_step : forall k, titems_spec k ->
+  forall fd0 t env st last r st', eval_items genv (S k) env st (IFunc fd0 :: t) last = (r, st') ->
+  forall sc, items_F (fc_self fc) lv sc (IFunc fd0 :: t) = true ->
+  forall prog ip L ce stk h o m g e0 F fs,
+    code_at prog ip (compile_items_tl self L ce (IFunc fd0 :: t)) ->
+    MS m st h -> o = out st -> env_match_g fc g gl m env ce sc L stk ->
+    Z.of_nat (length stk) = L + Z.of_nat (length (fd_params fd)) ->
+    titems_concl prog (mk ip stk h o (mkfr g e0 F fs)) ip (compile_items_tl self L ce (IFunc fd0 :: t))
+      (nbinds (IFunc fd0 :: t)) m r st' e0 F fs.
+Proof.
+  intros k IHi fd0 t env st last r st' He sc HF prog ip L ce stk h o m g e0 F fs Hc HMS Hout Hem Hlen.
+  set (frc := mkfr g e0 F fs) in *.
+  set (fds := fd0 :: run_funcs t) in *. set (kk := length fds).
+  unfold Compile4.compile_items_tl in Hc |- *.
+  rewrite (CompileCorrect4Base.compile_items_run) in Hc |- *. cbv zeta in Hc |- *. fold fds kk in Hc |- *.
+  set (L' := L + Z.of_nat kk) in *. set (ce' := func_cenv fds (L + 1) ce) in *.
+  set (rc := run_code_f (closure_code FT TL fc L' ce') fds kk) in *.
+  set (rest := compile_items_f (Compile4.compile_expr FT TL fc) (Compile4.cexpr FT TL fc self true) (closure_code FT TL fc) L' ce' 0 (run_rest t)) in *.
+  pose proof Hc as (Hcc & Hpo).
+  assert (Hc1 : CompileCorrect4Base.code_at prog ip (ins BYTECODE_ALLOC (Z.of_nat kk) 0 :: rc)).
+  { change (ins BYTECODE_ALLOC (Z.of_nat kk) 0 :: rc ++ rest) with ((ins BYTECODE_ALLOC (Z.of_nat kk) 0 :: rc) ++ rest) in Hcc.
+    eapply CompileCorrect4Base.code_at_app_l; eauto. }
+  assert (Hc2 : code_at prog (ip + S (length rc)) rest).
+  { change (ins BYTECODE_ALLOC (Z.of_nat kk) 0 :: rc ++ rest) with ((ins BYTECODE_ALLOC (Z.of_nat kk) 0 :: rc) ++ rest) in Hc.
+    apply code_at_app_r in Hc. exact Hc. }
+  rewrite eval_items_IFunc in He. fold fds in He.
+  set (e' := run_env fds env st) in *. set (st1 := run_state fds env st) in *.
+  set (Sk := rev (seq (length h) kk) ++ stk).
+  destruct (run_prefix frc fc gl fd0 t env st sc HF prog L ce ip stk h o m Hc1 Hpo HMS Hem) as (H' & m' & Hst & HMS' & Hem' & Hext & HFr).
+  fold fds kk L' ce' rc Sk e' st1 in Hst, HMS', Hem', HFr.
+  assert (HlenS : length (rev (seq (length h) kk)) = kk) by (rewrite rev_length, seq_length; reflexivity).
+  assert (Hlen' : Z.of_nat (length Sk) = L' + Z.of_nat (length (fd_params fd))).
+  { unfold Sk, L'. rewrite app_length, HlenS. lia. }
+  pose proof (IHi (run_rest t) e' st1 _ r st' He (map fd_name fds ++ sc) HFr prog (ip + S (length rc))%nat L' ce'
+                Sk H' o m' g e0 F fs Hc2 HMS'
+                (eq_trans Hout (eq_sym (eq_refl : out st1 = out st))) Hem' Hlen') as Ht.
+  change (compile_items_tl self L' ce' (run_rest t)) with rest in Ht. fold frc in Ht.
+  rewrite (nbinds_run (IFunc fd0 :: t)). cbn [run_funcs run_rest]. fold fds kk.
+  replace (Z.of_nat kk + nbinds (run_rest t)) with (nbinds (run_rest t) + Z.of_nat (length (rev (seq (length h) kk)))) by (rewrite HlenS; lia).
+  eapply (titems_lift _ _ _ (rev (seq (length h) kk)) _ _ (ip + S (length rc))%nat rest);
+    [exact Hst | reflexivity | reflexivity | exact Hext | lia | cbn [length]; rewrite app_length; lia | exact Ht].
+Qed.
+
+Lemma titems_step : forall k, expr_spec fc gl k -> tail_spec k -> titems_spec k -> titems_spec (S k).
+Proof.
+  intros k IHe IHt IHi items env st last r st' He sc HF prog ip L ce stk h o m g e0 F fs Hc HMS Hout Hem Hlen.
+  set (frc := mkfr g e0 F fs) in *.
+  destruct items as [|it t]; [discriminate HF|].
+  destruct it as [x e | x e | fd0 | e].
+  - rewrite eval_items_ILet in He. rewrite items_F1_let in HF. rewrite compile_items_tl_let in *.
+    change (nbinds (ILet x e :: t)) with (1 + nbinds t).
+    eapply titems_bind_step; eauto.
+  - rewrite eval_items_IVar in He. rewrite items_F1_var in HF. rewrite compile_items_tl_var in *.
+    change (nbinds (IVar x e :: t)) with (1 + nbinds t).
+    eapply titems_bind_step; eauto.
+  - eapply titems_run_step; eauto.
+  - rewrite eval_items_IExpr in He. rewrite items_F1_expr in HF.
+    change (nbinds (IExpr e :: t)) with (nbinds t).
+    apply andb_true_iff in HF; destruct HF as [Fe Ft].
+    destruct t as [|it2 t2].
+    + (* the last item: tail position *)
+      rewrite compile_items_tl_last in *. rewrite app_nil_r in *.
+      destruct (eval genv k env st e) as [r1 st1] eqn:Ea.
+      pose proof (IHt e _ _ _ _ Ea sc Fe prog ip L ce stk h o m g e0 F fs Hc HMS Hout Hem Hlen) as Ha.
+      fold frc in Ha.
+      destruct r1 as [c1|ex| |]; simpl in Ha; [| inv He; simpl; exact Ha | inv He; exact I | inv He; exact I].
+      destruct (eval_items_nil_inv _ _ _ _ _ _ He) as [-> | [-> ->]]; [exact I|]. simpl.
+      destruct Ha as [(s1 & m1 & a1 & Hst1 & Hip1 & Hstk1 & Hm1 & HMS1 & Hext1 & Hout1 & Hfr1) | Hret].
+      * left. exists s1, m1, a1, []. simpl. repeat (split; auto).
+      * right. exact Hret.
+    + rewrite compile_items_tl_expr in *.
+      set (t := it2 :: t2) in *. set (ca := compile_expr fc L ce e) in *.
+      destruct (eval genv k env st e) as [r1 st1] eqn:Ea.
+      pose proof (IHe e _ _ _ _ Ea sc Fe prog ip L ce (mk ip stk h o frc) m
+                    (code_at_app_l _ _ _ _ Hc) eq_refl HMS Hout Hem) as Ha. fold ca in Ha.
+      destruct r1 as [c1|ex| |]; simpl in Ha; [| inv He; simpl | inv He; exact I | inv He; exact I].
+      2:{ destruct Ha as [-> Hr]. split; [reflexivity|]. left.
+          eapply raises_weaken; [exact Hr | lia | rewrite app_length; lia]. }
+      destruct Ha as (s1 & m1 & a1 & Hst1 & Hip1 & Hstk1 & Hm1 & HMS1 & Hext1 & Hout1 & Hfr1).
+      destruct s1 as [ip1 stk1 h1 o1 fr1]; simpl in Hip1, Hstk1, HMS1, Hout1, Hfr1; subst ip1 stk1 fr1.
+      pose proof (code_at_app_r _ _ _ _ Hc) as Hc2.
+      pose proof (code_at_head _ _ _ _ Hc2) as Hsl. pose proof (code_at_tail _ _ _ _ Hc2) as Hct.
+      assert (Hpop : star prog (mk ip stk h o frc) (mk (S (ip + length ca)) stk h1 o1 frc)).
+      { eapply star_snoc; [exact Hst1|]. apply (step_slide_pop frc). exact Hsl. }
+      pose proof (IHi t _ _ _ _ _ He sc Ft prog (S (ip + length ca)) L ce stk h1 o1 m1 g e0 F fs
+                    Hct HMS1 Hout1 (env_match_ext _ _ _ _ _ _ _ _ _ _ Hem Hext1) Hlen) as Ht.
+      fold frc in Ht.
+      replace (nbinds t) with (nbinds t + Z.of_nat (length (@nil nat))) by (simpl; lia).
+      eapply (titems_lift _ _ _ [] _ _ (S (ip + length ca)) (compile_items_tl self L ce t));
+        [exact Hpop | reflexivity | reflexivity | exact Hext1 | lia | rewrite app_length; simpl; lia | exact Ht].
+Qed.
+
+Lemma tcase_EBlock : forall k items, titems_spec k -> tail_case (S k) (EBlock items).
+Proof.
+  intros k items IHi env st r st' He sc HF prog ip L ce stk h o m g e0 F fs Hc HMS Hout Hem Hlen.
+  set (frc := mkfr g e0 F fs) in *.
+  rewrite eval_EBlock in He. rewrite cexpr_block_tl in *.
+  change (in_F (fc_self fc) lv sc (EBlock items)) with (items_F (fc_self fc) lv sc items) in HF.
+  pose proof (IHi items env st None r st' He sc HF prog ip L ce stk h o m g e0 F fs
+                (code_at_app_l _ _ _ _ Hc) HMS Hout Hem Hlen) as Hi.
+  fold frc in Hi. unfold titems_concl in Hi.
+  destruct r as [c|ex| |]; simpl in Hi |- *; auto.
+  - destruct Hi as [(s1 & m1 & a & locals & Hst1 & Hip1 & Hstk1 & Hlenl & Hm1 & HMS1 & Hext1 & Hout1 & Hfr1) | Hret];
+      [left | right; exact Hret].
+    destruct s1 as [ip1 stk1 h1 o1 fr1]; simpl in Hip1, Hstk1, HMS1, Hout1, Hfr1; subst ip1 stk1 fr1.
+    pose proof (code_at_app_r _ _ _ _ Hc) as Hce.
+    unfold block_end in *. destruct (0 <? nbinds items) eqn:En.
+    + apply Z.ltb_lt in En.
+      apply (post_ok_intro _ _ _ _ _ _ (mk (S (ip + length (compile_items_tl self L ce items))) (a :: stk) h1 o1 frc) m1 a);
+        simpl; auto.
+      * eapply star_snoc; [exact Hst1|]. eapply (step_slide_block frc); eauto. eapply code_at_head; exact Hce.
+      * rewrite app_length. simpl. lia.
+    + apply Z.ltb_ge in En. pose proof (nbinds_nonneg items).
+      assert (locals = []) by (destruct locals; [reflexivity | simpl in Hlenl; lia]). subst locals.
+      apply (post_ok_intro _ _ _ _ _ _ (mk (ip + length (compile_items_tl self L ce items)) (a :: stk) h1 o1 frc) m1 a);
+        simpl; auto.
+      rewrite app_nil_r. reflexivity.
+  - destruct Hi as (-> & [Hr | Hre]); split; auto.
+    left. eapply raises_weaken; [exact Hr | lia | rewrite app_length; lia].
+Qed.
+
+(* everything that is not ?: / a block / a call is compiled in tail position like anywhere else *)
+Lemma tcase_other : forall k e, expr_case fc gl k e ->
+  (forall L ce, Compile4.cexpr FT TL fc self true L ce e = compile_expr fc L ce e) -> tail_case k e.
+Proof.
+  intros k e H Heq env st r st' He sc HF prog ip L ce stk h o m g e0 F fs Hc HMS Hout Hem Hlen.
+  rewrite Heq in *. apply concl_tconcl.
+  exact (H env st r st' He sc HF prog ip L ce (mk ip stk h o (mkfr g e0 F fs)) m Hc eq_refl HMS Hout Hem).
+Qed.
+
+(* ---- the self tail call: args; f; SLIDE (L+v) (v+1); CALL — the frame is reused ------------------ *)
+
+Lemma step_slide_all : forall fr prog ip top stk h o q mm,
+  nth_error prog ip = Some (ins BYTECODE_SLIDE q mm) ->
+  q = Z.of_nat (length stk) -> mm = Z.of_nat (length top) ->
+  step prog (mk ip (top ++ stk) h o fr) = SNext (mk (S ip) top h o fr).
+Proof.
+  intros fr prog ip top stk h o q mm H -> ->. unfold ValueVM4.step. cbn [v_ip v_stk v_heap v_out v_fr ValueVM4.mkst].
+  rewrite H. cbn [r_op ins r_w0 r_w1]. rewrite !zn_nonneg by lia. rewrite !Nat2Z.id.
+  destruct (Nat.eqb (length stk) 0) eqn:E0.
+  - apply Nat.eqb_eq in E0. destruct stk; [|discriminate E0]. rewrite app_nil_r. reflexivity.
+  - replace (Nat.leb (length stk + length top) (length (top ++ stk))) with true
+      by (symmetry; apply Nat.leb_le; rewrite app_length; lia).
+    rewrite firstn_app, firstn_all, Nat.sub_diag. simpl firstn. rewrite app_nil_r.
+    rewrite skipn_all2 by (rewrite app_length; lia). rewrite app_nil_r. reflexivity.
+Qed.
+
+Lemma step_call_tail : forall prog ip f rest h o g e0 F fs vec target,
+  nth_error prog ip = Some (ins0 BYTECODE_CALL) -> nth_error h f = Some (HFun vec target) -> target <> 0%nat ->
+  step prog (mk ip (f :: rest) h o (mkfr g e0 F fs)) = SNext (mk target rest h o (mkfr vec e0 F fs)).
+Proof.
+  intros. unfold ValueVM4.step. simpl. rewrite H. simpl. rewrite H0.
+  destruct (Nat.eqb target 0) eqn:E0; [apply Nat.eqb_eq in E0; congruence|]. reflexivity.
+Qed.
+
+Lemma last_call_code_length : forall L v ca cf, length (last_call_code L v ca cf) = (length ca + length cf + 2)%nat.
+Proof. intros. unfold last_call_code. rewrite !app_length. simpl. lia. Qed.
+
+
+
+(* the self call in tail position of a TOP-LEVEL function: args; GLOBAL_VEC 0; ID_FUNC_ADDR f; SLIDE; CALL with
+   the frame reused — gp becomes the new (empty) vector *)
+Lemma tcase_ECall_top : forall k args, kd = KTop -> expr_spec fc gl k -> body_spec k ->
+  tail_case (S k) (ECall (EVar (fd_name fd)) args).
+Proof.
+  intros k args Ekd IH IHb env st r st' He sc HF prog ip L ce stk h o m g e0 F fs Hc HMS Hout Hem Hlen.
+  set (frc := mkfr g e0 F fs) in *.
+  pose proof Hc as (_ & Hpo).
+  assert (Hkt : nth_error (g_all G) kidx = Some (KTop, fd)) by (rewrite <- Ekd; exact Hk).
+  pose proof (po_top_inv _ Hpo kidx fd Hkt) as Hkf.
+  pose proof (po_find _ Hpo kidx fd Hkf) as Hfind.
+  destruct (proj1 (proj2 (proj2 Hem)) _ _ Hfind) as (cf & Hgl & Hmcf).
+  assert (Hs : exists n, fsig_lookup (fd_name fd) FS = Some n /\ n = length (fd_params fd)).
+  { unfold FS, g_sigs. clear -Hfind. induction (g_funcs G) as [|g0 t IHt]; [discriminate|]. simpl in Hfind |- *.
+    destruct (N.eqb (fd_name fd) (fd_name g0)); [inv Hfind; eauto | apply IHt; exact Hfind]. }
+  destruct Hs as (n & Hs & Hn).
+  rewrite in_F_call, Hs in HF.
+  apply andb_true_iff in HF; destruct HF as [HF Hsig].
+  apply andb_true_iff in HF; destruct HF as [_ Fargs]. apply Nat.eqb_eq in Hsig.
+  assert (Hlv : lookup_var genv (fd_name fd) env = Some cf).
+  { unfold lookup_var. destruct (lookup (fd_name fd) env) as [c|] eqn:El; [|exact Hgl].
+    pose proof (proj1 (proj2 Hem) _ c El) as Hx. unfold is_fname in Hx. fold FS in Hx. rewrite Hs in Hx. discriminate. }
+  pose proof (po_named _ Hpo kidx KTop fd Hkt) as Hfi.
+  rewrite eval_ECall in He.
+  set (v := Z.of_nat (length args)) in *.
+  assert (Ecode : Compile4.cexpr FT TL fc self true L ce (ECall (EVar (fd_name fd)) args) =
+                  last_call_code L v (Compile4.compile_args FT TL fc ce L args) (top_code (Z.of_nat (nstd + kidx)))).
+  { cbn [Compile4.cexpr andb]. unfold tail_self. rewrite Ekd. cbn [self_is]. rewrite N.eqb_refl.
+    change (Compile4.cexpr FT TL (ctx_of TL KTop fd) None false (L + Z.of_nat (length args)) ce (EVar (fd_name fd)))
+      with (var_code FT TL (ctx_of TL KTop fd) (L + Z.of_nat (length args)) ce (fd_name fd)).
+    rewrite <- Ekd. rewrite (var_code_top fc gl Hgood _ _ _ _ _ _ _ (fd_name fd) n Hem Hs), Hfi. reflexivity. }
+  rewrite Ecode in *. clear Ecode.
+  set (ca := Compile4.compile_args FT TL fc ce L args) in *.
+  rewrite last_call_code_length. unfold last_call_code, top_code in Hc. change (length (top_code (Z.of_nat (nstd + kidx)))) with 2%nat.
+  pose proof (code_at_app_l _ _ _ _ Hc) as Hca.
+  pose proof (code_at_app_r _ _ _ _ Hc) as H3. cbn [app] in H3.
+  set (q := (ip + length ca)%nat) in *.
+  pose proof (code_at_head _ _ _ _ H3) as HGV.
+  pose proof (code_at_head _ _ _ _ (code_at_tail _ _ _ _ H3)) as HFA.
+  pose proof (code_at_head _ _ _ _ (code_at_tail _ _ _ _ (code_at_tail _ _ _ _ H3))) as HSL.
+  pose proof (code_at_head _ _ _ _ (code_at_tail _ _ _ _ (code_at_tail _ _ _ _ (code_at_tail _ _ _ _ H3)))) as HCL.
+  destruct (eval_args genv k env args st) as [[ocs ra] st1] eqn:Eargs.
+  pose proof (args_spec_of fc gl k IH args env st ocs ra st1 Eargs sc Fargs prog ip L ce
+                (mk ip stk h o frc) m Hca eq_refl HMS Hout Hem) as Ha.
+  fold ca in Ha. fold q in Ha. unfold args_concl in Ha.
+  destruct ocs as [cs|].
+  2:{ inv He. simpl in Ha. destruct r as [c|ex| |]; simpl; auto.
+      { exfalso. eapply eval_args_none_not_ok; eauto. }
+      destruct Ha as [-> Hr]. split; [reflexivity|]. left.
+      eapply raises_weaken; [exact Hr | lia | subst q; lia]. }
+  destruct Ha as (s1 & m1 & astk & Hst1 & Hip1 & Hstk1 & Hlen1 & HF1 & HMS1 & Hext1 & Hout1 & Hfr1).
+  destruct s1 as [ip1 stk1 h1 o1 fr1]; simpl in Hip1, Hstk1, HMS1, Hout1, Hfr1; subst ip1 stk1 fr1.
+  destruct k as [|k']; [rewrite eval_O in He; inv He; exact I|].
+  rewrite eval_EVar, Hlv in He.
+  pose proof (ext_nth _ _ _ _ Hext1 Hmcf) as Hmcf1.
+  unfold apply_fun in He. unfold get_cell in He. rewrite (ms_fun _ _ _ HMS1 cf fd Hmcf1) in He.
+  destruct (bind_params (fd_params fd) cs) as [penv|] eqn:Hb; [|inv He; exact I].
+  assert (Hg1 : genv_ok m1).
+  { intros g1 gd Hgd. destruct Hem as (_ & _ & Hf3 & _). destruct (Hf3 g1 gd Hgd) as (cg & Hl & Hm).
+    exists cg. split; [exact Hl | eapply ext_nth; eauto]. }
+  set (h1' := (h1 ++ [HVec []]) ++ [HFun (length h1) (faddr (nstd + kidx))]).
+  assert (HMS1' : MS m1 st1 h1') by (unfold h1'; apply MS_heap_app, MS_heap_app; exact HMS1).
+  pose proof (IHb kidx KTop fd Hkt [] (length h1) [] cs penv st1 r st' Hb He prog astk h1' o1 m1 e0 F fs
+                Hpo HMS1' Hout1 HF1 Hg1 (conj eq_refl eq_refl)) as Hbody.
+  unfold act_done in Hbody.
+  assert (Henter : star prog (mk ip stk h o frc) (mk (faddr (nstd + kidx)) astk h1' o1 (mkfr (length h1) e0 F fs))).
+  { eapply star_trans; [exact Hst1|].
+    eapply star_step; [apply (step_global_vec0 frc); exact HGV|].
+    eapply star_step; [eapply (step_id_func_addr frc); exact HFA|]. fold h1'.
+    eapply star_step.
+    - change (length (h1 ++ [HVec []]) :: astk ++ stk) with ((length (h1 ++ [HVec []]) :: astk) ++ stk).
+      apply (step_slide_all frc prog (S (S q)) (length (h1 ++ [HVec []]) :: astk) stk h1' o1 _ _ HSL).
+      + unfold v. lia.
+      + unfold v. simpl length. lia.
+    - apply star_one. apply (step_call_tail prog (S (S (S q))) (length (h1 ++ [HVec []])) astk h1' o1 g e0 F fs (length h1) (faddr (nstd + kidx)) HCL).
+      + unfold h1'. rewrite nth_error_app2, Nat.sub_diag by lia. reflexivity.
+      + apply (po_nz _ Hpo _ _ Hkt). }
+  destruct r as [cb|exb| |]; try exact I.
+  - simpl. right.
+    destruct Hbody as (h' & o' & m' & a & Hrun & Hm' & HMS' & Hext' & Ho').
+    exists h', o', m', a. split; [eapply star_trans; eauto|]. split; [exact Hm'|]. split; [exact HMS'|].
+    split; [eapply ext_trans; eauto | exact Ho'].
+  - simpl.
+    destruct Hbody as (-> & h' & t & m' & Hrun & HMS' & Hext'). split; [reflexivity|]. right.
+    exists h', t, m'. split; [eapply star_trans; eauto|]. split; [exact HMS' | eapply ext_trans; eauto].
+Qed.
+
+(* the self call in tail position of a NAMED NESTED function: args; COPYGLOB; ID_FUNC_ADDR f; SLIDE; CALL — the
+   frame and the vector are reused *)
+Lemma tcase_ECall_self : forall k args, kd = KNamed -> expr_spec fc gl k -> body_spec k ->
+  tail_case (S k) (ECall (EVar (fd_name fd)) args).
+Proof.
+  intros k args Ekd IH IHb env st r st' He sc HF prog ip L ce stk h o m g e0 F fs Hc HMS Hout Hem Hlen.
+  set (frc := mkfr g e0 F fs) in *.
+  pose proof Hc as (_ & Hpo).
+  assert (Hfs : fc_self fc = Some (fd_name fd)) by (unfold ctx_of; rewrite Ekd; reflexivity).
+  assert (Hs : fsig_lookup (fd_name fd) FS = None).
+  { pose proof (Hgood _ Hfs) as Hx. unfold is_fname in Hx. destruct (fsig_lookup (fd_name fd) FS); [discriminate | reflexivity]. }
+  rewrite in_F_call, Hs in HF.
+  apply andb_true_iff in HF; destruct HF as [HF _].
+  apply andb_true_iff in HF; destruct HF as [_ Fargs].
+  assert (Hnsc : mem_id (fd_name fd) sc = false) by (apply (proj2 (proj2 (proj2 (proj2 (proj2 (proj2 Hem)))))); exact Hfs).
+  assert (Hcl : clookup (fd_name fd) ce = None).
+  { destruct (clookup (fd_name fd) ce) as [i|] eqn:E; [|reflexivity].
+    destruct Hem as (_ & _ & _ & _ & Hce & _). destruct (Hce _ i E) as [_ Hx]. congruence. }
+  destruct (proj1 (proj2 (proj2 (proj2 (proj2 (proj2 Hem))))) _ Hfs Hcl)
+    as (cf & kself & sfd & scenv & Hlf & Hrec & Hname & Hks & Hgv & HFv & Hnf).
+  pose proof (po_named _ Hpo kself KNamed sfd Hks) as Hfi. rewrite Hname in Hfi.
+  rewrite eval_ECall in He.
+  set (v := Z.of_nat (length args)) in *.
+  assert (Ecode : Compile4.cexpr FT TL fc self true L ce (ECall (EVar (fd_name fd)) args) =
+                  last_call_code L v (Compile4.compile_args FT TL fc ce L args)
+                    [ins0 BYTECODE_COPYGLOB; ins BYTECODE_ID_FUNC_ADDR (Z.of_nat (nstd + kself)) 0]).
+  { cbn [Compile4.cexpr andb]. unfold tail_self. rewrite Ekd. cbn [self_is]. rewrite N.eqb_refl.
+    change (Compile4.cexpr FT TL (ctx_of TL KNamed fd) None false (L + Z.of_nat (length args)) ce (EVar (fd_name fd)))
+      with (var_code FT TL (ctx_of TL KNamed fd) (L + Z.of_nat (length args)) ce (fd_name fd)).
+    unfold var_code. rewrite Hcl. cbn [ctx_of fc_self self_is]. rewrite N.eqb_refl, Hfi. rewrite <- Ekd. reflexivity. }
+  rewrite Ecode in *. clear Ecode.
+  set (ca := Compile4.compile_args FT TL fc ce L args) in *.
+  rewrite last_call_code_length. unfold last_call_code in Hc. cbn [length].
+  pose proof (code_at_app_l _ _ _ _ Hc) as Hca.
+  pose proof (code_at_app_r _ _ _ _ Hc) as H3. cbn [app] in H3.
+  set (q := (ip + length ca)%nat) in *.
+  pose proof (code_at_head _ _ _ _ (code_at_tail _ _ _ _ (code_at_tail _ _ _ _ H3))) as HSL.
+  pose proof (code_at_head _ _ _ _ (code_at_tail _ _ _ _ (code_at_tail _ _ _ _ (code_at_tail _ _ _ _ H3)))) as HCL.
+  destruct (eval_args genv k env args st) as [[ocs ra] st1] eqn:Eargs.
+  pose proof (args_spec_of fc gl k IH args env st ocs ra st1 Eargs sc Fargs prog ip L ce
+                (mk ip stk h o frc) m Hca eq_refl HMS Hout Hem) as Ha.
+  fold ca in Ha. fold q in Ha. unfold args_concl in Ha.
+  destruct ocs as [cs|].
+  2:{ inv He. simpl in Ha. destruct r as [c|ex| |]; simpl; auto.
+      { exfalso. eapply eval_args_none_not_ok; eauto. }
+      destruct Ha as [-> Hr]. split; [reflexivity|]. left.
+      eapply raises_weaken; [exact Hr | lia | subst q; lia]. }
+  destruct Ha as (s1 & m1 & astk & Hst1 & Hip1 & Hstk1 & Hlen1 & HF1 & HMS1 & Hext1 & Hout1 & Hfr1).
+  destruct s1 as [ip1 stk1 h1 o1 fr1]; simpl in Hip1, Hstk1, HMS1, Hout1, Hfr1; subst ip1 stk1 fr1.
+  destruct k as [|k']; [rewrite eval_O in He; inv He; exact I|].
+  rewrite eval_EVar in He. unfold lookup_var in He. rewrite Hlf in He.
+  unfold apply_fun in He.
+  pose proof (ext_fcl _ _ _ Hext1 Hrec) as Hrec1.
+  destruct (ms_fcl _ _ _ HMS1 _ _ _ Hrec1) as [Hcell | (w & Hcell & Hw)].
+  2:{ unfold get_cell in He. rewrite Hcell in He. destruct w; try contradiction; inv He; exact I. }
+  unfold get_cell in He. rewrite Hcell in He.
+  destruct (bind_params (fd_params sfd) cs) as [penv|] eqn:Hb; [|inv He; exact I].
+  assert (Hg1 : genv_ok m1).
+  { intros f0 gd Hgd. destruct Hem as (_ & _ & Hf3 & _). destruct (Hf3 f0 gd Hgd) as (cg & Hl & Hm).
+    exists cg. split; [exact Hl | eapply ext_nth; eauto]. }
+  assert (Hact : act_rel m1 KNamed sfd scenv g gl).
+  { split; [eapply ext_vec; eauto|]. split; [|split; [exact Hnf|]].
+    - eapply Forall2_imp; [|exact HFv]. intros y a (c & Y1 & Y2). exists c. split; [exact Y1 | eapply ext_nth; eauto].
+    - intros _. exists cf. split; [|exact Hrec1]. eapply (ms_fself _ _ _ HMS1); eauto. }
+  assert (Esfd : sfd = fd).
+  { pose proof (po_named _ Hpo kidx kd fd Hk) as Hfi2. rewrite Hfi in Hfi2.
+    assert (kself = kidx) by lia. subst kself. rewrite Hk in Hks. inv Hks. reflexivity. }
+  assert (Harity : length args = length (fd_params fd)).
+  { rewrite <- Esfd, <- (bind_params_length _ _ _ Hb), (Forall2_len _ _ _ _ _ HF1). symmetry. exact Hlen1. }
+  set (h1' := h1 ++ [HFun g (faddr (nstd + kself))]).
+  assert (HMS1' : MS m1 st1 h1') by (unfold h1'; apply MS_heap_app; exact HMS1).
+  pose proof (IHb kself KNamed sfd Hks scenv g gl cs penv st1 r st' Hb He prog astk h1' o1 m1 e0 F fs
+                Hpo HMS1' Hout1 HF1 Hg1 Hact) as Hbody.
+  unfold act_done in Hbody.
+  assert (Henter : star prog (mk ip stk h o frc) (mk (faddr (nstd + kself)) astk h1' o1 (mkfr g e0 F fs))).
+  { eapply star_trans; [exact Hst1|].
+    eapply star_trans.
+    { apply (CompileCorrect4Base.step_copyglob_self X prog q (astk ++ stk) h1 o1 frc (nstd + kself) 0).
+      apply (CompileCorrect4Base.code_at_app_l prog q
+               [ins0 BYTECODE_COPYGLOB; ins BYTECODE_ID_FUNC_ADDR (Z.of_nat (nstd + kself)) 0]
+               [ins BYTECODE_SLIDE (L + v) (v + 1) ; ins0 BYTECODE_CALL]). exact (proj1 H3). }
+    cbn [r_gp frc mkfr]. fold h1'.
+    eapply star_step.
+    - change (length h1 :: astk ++ stk) with ((length h1 :: astk) ++ stk).
+      apply (step_slide_all frc prog (S (S q)) (length h1 :: astk) stk h1' o1 _ _ HSL).
+      + unfold v. lia.
+      + unfold v. simpl length. lia.
+    - apply star_one. apply (step_call_tail prog (S (S (S q))) (length h1) astk h1' o1 g e0 F fs g (faddr (nstd + kself)) HCL).
+      + unfold h1'. rewrite nth_error_app2, Nat.sub_diag by lia. reflexivity.
+      + apply (po_nz _ Hpo _ _ Hks). }
+  destruct r as [cb|exb| |]; try exact I.
+  - simpl. right.
+    destruct Hbody as (h' & o' & m' & a & Hrun & Hm' & HMS' & Hext' & Ho').
+    exists h', o', m', a. split; [eapply star_trans; eauto|]. split; [exact Hm'|]. split; [exact HMS'|].
+    split; [eapply ext_trans; eauto | exact Ho'].
+  - simpl.
+    destruct Hbody as (-> & h' & t & m' & Hrun & HMS' & Hext'). split; [reflexivity|]. right.
+    exists h', t, m'. split; [eapply star_trans; eauto|]. split; [exact HMS' | eapply ext_trans; eauto].
+Qed.
+
+(* a call in tail position: the self call reuses the frame, any other call is an ordinary call *)
+Lemma tcase_ECall : forall k f args, expr_spec fc gl k -> body_spec k ->
+  expr_case fc gl (S k) (ECall f args) -> tail_case (S k) (ECall f args).
+Proof.
+  intros k f args IH IHb Hplain.
+  assert (Hother : Compile4.cexpr FT TL fc self true = Compile4.cexpr FT TL fc self true) by reflexivity.
+  destruct f; try (apply tcase_other; [exact Hplain | intros; reflexivity]).
+  destruct (self_is self x) eqn:Es.
+  - assert (Hx : x = fd_name fd /\ (kd = KTop \/ kd = KNamed)).
+    { clear - Es. unfold self_is, tail_self in Es. destruct kd; try discriminate Es; apply N.eqb_eq in Es; auto. }
+    destruct Hx as [-> [Ekd | Ekd]].
+    + apply tcase_ECall_top; auto.
+    + apply tcase_ECall_self; auto.
+  - apply tcase_other; [exact Hplain|]. intros L ce. cbn [Compile4.cexpr]. rewrite Es. reflexivity.
+Qed.
+
+Lemma tail_step : forall k, expr_spec fc gl k -> tail_spec k -> titems_spec k -> body_spec k ->
+  expr_spec fc gl (S k) -> tail_spec (S k).
+Proof.
+  intros k IHe IHt IHi IHb IHe' e.
+  destruct e; try (apply tcase_other; [apply IHe' | reflexivity]).
+  - apply tcase_ECond; assumption.
+  - apply tcase_ECall; [assumption | assumption | apply IHe'].
+  - apply tcase_EBlock; assumption.
+Qed.
+
+End Tail.
+
+(* one activation: FUNC_DEF; the body; LINE; RET — or a fault: the catch clauses, or LABEL; RETHROW *)
+Lemma body_of_specs : forall k,
+  (forall fc gl, good_ctx fc -> items_spec fc gl k) ->
+  (forall kidx kd fd gl, nth_error (g_all G) kidx = Some (kd, fd) -> good_ctx (ctx_of TL kd fd) -> titems_spec kd fd gl k) ->
+  body_spec k.
+Proof.
+  intros k IHi IHti kidx kd fd Hk cenv vec gl cs penv st r st' Hb He prog astk h o m e0 F fs Hpo HMS Hout HF Hg Hact.
   destruct (funcs_ok kidx (kd, fd) Hk) as [Hfok Hnt]. cbn [fst snd] in Hnt.
   pose proof (po_fun _ Hpo kidx (kd, fd) Hk) as Hcode.
   set (fa := faddr (nstd + kidx)) in *.
   set (frc := {| r_fp := 0; r_gp := vec; r_exc := e0; r_frames := F :: fs |}) in *.
-  assert (Hnc : no_catch fd = true /\ no_self_tail_fd fd = true).
-  { unfold Compile4.func_in_P in Hfok. cbn [fst snd] in Hfok. apply andb_true_iff in Hfok; destruct Hfok as [Hx H2].
-    apply andb_true_iff in Hx; destruct Hx as [_ H1]. auto. }
-  destruct Hnc as [Hnc Hnst].
-  destruct (compile_func_nocatch kd fd Hnc) as [Ecode Hsegs]. rewrite Ecode in Hcode.
+  pose proof Hfok as Hfok0.
+  unfold Compile4.func_in_P in Hfok0. cbn [fst snd] in Hfok0.
+  apply andb_true_iff in Hfok0; destruct Hfok0 as [Hfok0 Hcat].
+  apply andb_true_iff in Hfok0; destruct Hfok0 as [Hfok0 _].
+  apply andb_true_iff in Hfok0; destruct Hfok0 as [HFb _].
   set (fc := ctx_of TL kd fd).
-  assert (Hbd : compile_body FT TL kd fd = compile_expr fc 0 (param_env (fd_params fd) 0) (EBlock (fd_body fd))).
-  { apply no_self_tail_body. exact Hnst. }
-  rewrite Hbd in Hcode. set (body := compile_expr fc 0 (param_env (fd_params fd) 0) (EBlock (fd_body fd))) in *.
-  pose proof (CompileCorrect4Base.code_at_head _ _ _ _ Hcode) as HFD.
-  pose proof (CompileCorrect4Base.code_at_tail _ _ _ _ Hcode) as Hc1.
+  assert (Hsegs : fsegs FT TL (kd, fd) = [] ++ body_seg FT TL kd fd :: tail_segs kd fd (fd_catches fd)) by reflexivity.
+  pose proof (seg_at prog fa (kd, fd) [] _ _ Hcode Hsegs) as Hseg. cbn [concat length] in Hseg.
+  rewrite Nat.add_0_r in Hseg. unfold body_seg in Hseg. rewrite seg_shape_body in Hseg.
+  set (body := compile_body FT TL kd fd) in *.
+  pose proof (CompileCorrect4Base.code_at_head _ _ _ _ Hseg) as HFD.
+  pose proof (CompileCorrect4Base.code_at_tail _ _ _ _ Hseg) as Hc1.
   pose proof (CompileCorrect4Base.code_at_app_l _ _ _ _ Hc1) as Hbody.
   pose proof (CompileCorrect4Base.code_at_app_r _ _ _ _ Hc1) as Hc2.
   pose proof (CompileCorrect4Base.code_at_head _ _ _ _ Hc2) as HLN.
   pose proof (CompileCorrect4Base.code_at_head _ _ _ _ (CompileCorrect4Base.code_at_tail _ _ _ _ Hc2)) as HRT.
   pose proof (CompileCorrect4Base.code_at_tail _ _ _ _ (CompileCorrect4Base.code_at_tail _ _ _ _ Hc2)) as Hc3.
   pose proof (CompileCorrect4Base.code_at_head _ _ _ _ Hc3) as HLB.
-  pose proof (CompileCorrect4Base.code_at_head _ _ _ _ (CompileCorrect4Base.code_at_tail _ _ _ _ Hc3)) as HRW.
+  pose proof (CompileCorrect4Base.code_at_tail _ _ _ _ Hc3) as Hc4.
   assert (Hlenseg : length (body_seg FT TL kd fd) = (length body + 4)%nat).
-  { unfold body_seg. rewrite Hbd. fold body. cbn [length]. rewrite app_length. cbn [length]. lia. }
+  { unfold body_seg. fold body. cbn [length]. rewrite app_length. cbn [length]. lia. }
   assert (H0 : star prog (mk fa astk h o frc) (mk (S fa) astk h o frc)).
   { apply star_one. apply (step_func_def frc). exact HFD. }
   assert (Htab : forall i, (S fa <= i < S fa + length body)%nat ->
                    hsearch (x_tab X) i 0 = (S (S (S fa + length body)))%nat).
   { intros i Hi. rewrite (po_tab _ Hpo kidx (kd, fd) [] _ _ i Hk Hsegs) by (fold fa; cbn [concat length]; rewrite Hlenseg; lia).
     fold fa. cbn [concat length]. rewrite Hlenseg. lia. }
-  assert (HFb : items_F lv (body_scope TL kd fd) (fd_body fd) = true).
-  { unfold Compile4.func_in_P in Hfok. cbn [fst snd] in Hfok.
-    apply andb_true_iff in Hfok; destruct Hfok as [Hfok _]. apply andb_true_iff in Hfok; destruct Hfok as [Hfok _].
-    apply andb_true_iff in Hfok; destruct Hfok as [Hfok _]. exact Hfok. }
-  assert (Hself : forall g, fc_self fc = Some g -> is_fname FS g = false).
+  assert (Hself : good_ctx fc).
   { intros g Hgs. unfold fc, ctx_of in Hgs. cbn [fc_self] in Hgs. destruct kd; try discriminate Hgs.
     inv Hgs. apply Hnt. discriminate. }
   unfold call_body in He.
   destruct (eval_items genv k (penv ++ cenv) st (fd_body fd) None) as [rb st3] eqn:Eb.
   assert (Hpc : pcode_at prog (S fa) body) by (split; [exact Hbody | exact Hpo]).
   assert (He' : eval genv (S k) (penv ++ cenv) st (EBlock (fd_body fd)) = (rb, st3)) by (rewrite eval_EBlock; exact Eb).
-  pose proof (body_env_match kd fd cenv vec gl cs penv astk m Hfok Hnt Hb HF Hg Hact) as Hem.
-  pose proof (case_EBlock frc fc gl k (fd_body fd) (IHi fc gl Hself) (penv ++ cenv) st rb st3 He'
-                (body_scope TL kd fd) HFb prog 0 (param_env (fd_params fd) 0) (S fa) astk h o m Hpc HMS Hout Hem) as Hx.
-  fold body in Hx.
-  assert (C12 : fd_catches fd = [] /\ fd_catch_all fd = None).
-  { unfold no_catch in Hnc. destruct (fd_catches fd); [destruct (fd_catch_all fd); [discriminate | auto] | discriminate]. }
-  destruct C12 as [C1 C2].
-  destruct rb as [c|ex| |].
-  - inv He. simpl. simpl in Hx.
+  pose proof (body_env_match kidx kd fd cenv vec gl cs penv astk m Hk Hfok Hnt Hb HF Hg Hact) as Hem.
+  assert (Hlen : Z.of_nat (length astk) = 0 + Z.of_nat (length (fd_params fd))).
+  { rewrite <- (Forall2_len _ _ _ _ _ HF), (bind_params_length _ _ _ Hb). lia. }
+  (* what follows the body *)
+  assert (Hpost : forall c, rb = ROk c -> post_ok prog (mk (S fa) astk h o frc) (S fa + length body) m c st3 ->
+            act_done prog (mk fa astk h o frc) m r st' F fs).
+  { intros c -> Hx. inv He. simpl.
     destruct Hx as (s1 & m1 & a & Hst1 & Hip1 & Hstk1 & Hm1 & HMS1 & Hext1 & Hout1 & Hfr1).
     destruct s1 as [ip1 stk1 h1 o1 fr1]; simpl in Hip1, Hstk1, HMS1, Hout1, Hfr1; subst ip1 stk1 fr1.
     exists h1, o1, m1, a. split; [|auto].
     eapply star_trans; [exact H0|]. eapply star_trans; [exact Hst1|].
     eapply star_step; [apply (step_line frc); exact HLN|].
-    apply star_one. apply step_ret_frame. exact HRT.
-  - rewrite C1, C2 in He.
-    destruct k as [|k']; [rewrite eval_items_O in Eb; discriminate|]. rewrite handlers_nil in He. inv He. simpl.
-    simpl in Hx.
-    destruct Hx as (-> & s1 & fip & m1 & fp' & Hst1 & Hrng & Hip1 & Hfr1 & Hrt & (t & top & Hstk1) & Hout1 & HMS1 & Hext1).
-    split; [reflexivity|].
+    apply star_one. apply step_ret_frame. exact HRT. }
+  assert (Hraise : forall ex, rb = RExc ex -> ex = ExDivision ->
+            raises prog (mk (S fa) astk h o frc) (S fa) (S fa + length body) m st3 ->
+            act_done prog (mk fa astk h o frc) m r st' F fs).
+  { intros ex -> -> (s1 & fip & m1 & fp' & Hst1 & Hrng & Hip1 & Hfr1 & Hrt & (t & top & Hstk1) & Hout1 & HMS1 & Hext1).
     destruct s1 as [ip1 stk1 h1 o1 fr1]; simpl in Hip1, Hstk1, Hout1, Hfr1, Hrt, HMS1; subst stk1 o1 fr1.
     rewrite Htab in Hip1 by lia. subst ip1.
-    assert (Hir : is_rethrow prog (S (S (S fa + length body))) = true).
-    { unfold is_rethrow. rewrite HLB, HRW. reflexivity. }
-    specialize (Hrt Hir). subst fp'.
-    destruct (step_rethrow_any prog (S (S (S (S fa + length body)))) (t :: top ++ astk) h1 (out st') vec (Some ExDivision) F fs HRW)
-      as (t1 & Hrw).
-    exists h1, t1, m1. split; [|split; [exact HMS1 | exact Hext1]].
-    eapply star_trans; [exact H0|]. eapply star_trans; [exact Hst1|].
-    eapply star_step; [apply (step_label _ prog (S (S (S fa + length body)))); exact HLB|].
-    apply star_one. exact Hrw.
-  - inv He. exact I.
-  - inv He. exact I.
+    assert (Hsegs2 : fsegs FT TL (kd, fd) = [body_seg FT TL kd fd] ++ tail_segs kd fd (fd_catches fd)) by reflexivity.
+    assert (Hcs' : forall c, In c (fd_catches fd) -> items_F (fc_self fc) lv (body_scope TL kd fd) (snd c) = true).
+    { intros c Hc. destruct (no_catch fd) eqn:Enc.
+      - unfold no_catch in Enc. destruct (fd_catches fd); [destruct Hc | discriminate Enc].
+      - cbn [orb] in Hcat. apply andb_true_iff in Hcat. destruct Hcat as [Hcat _].
+        apply andb_true_iff in Hcat. destruct Hcat as [Hcat _]. rewrite forallb_forall in Hcat. exact (Hcat c Hc). }
+    assert (Hall' : forall b, fd_catch_all fd = Some b -> items_F (fc_self fc) lv (body_scope TL kd fd) b = true).
+    { intros b Hbq. destruct (no_catch fd) eqn:Enc.
+      - unfold no_catch in Enc. rewrite Hbq in Enc. destruct (fd_catches fd); discriminate Enc.
+      - cbn [orb] in Hcat. apply andb_true_iff in Hcat. destruct Hcat as [Hcat _].
+        apply andb_true_iff in Hcat. destruct Hcat as [_ Hcat]. rewrite Hbq in Hcat. exact Hcat. }
+    assert (Hfp' : fd_catches fd = [] -> fd_catch_all fd = None -> fp' = 0%nat).
+    { intros C1 C2. apply Hrt. unfold is_rethrow. rewrite HLB.
+      unfold tail_segs in Hc4. rewrite C1, C2 in Hc4. cbn [map app concat] in Hc4.
+      rewrite (CompileCorrect4Base.code_at_head _ _ _ _ Hc4). reflexivity. }
+    pose proof (handlers_run k IHi kidx kd fd Hk cenv vec gl (fd_catches fd) [body_seg FT TL kd fd] Hsegs2 Hcs' Hall' k penv st3 r st'
+                  (le_n _) He prog (t :: top) astk h1 (out st3) m1 cs fp' F fs Hpo Hb
+                  (Forall2_ext_m _ _ _ _ Hext1 HF)
+                  (fun g gd Hgd => match Hg g gd Hgd with ex_intro _ cg (conj Hl Hm) =>
+                                     ex_intro _ cg (conj Hl (ext_nth _ _ _ _ Hext1 Hm)) end)
+                  (act_rel_ext _ _ _ _ _ _ _ Hext1 Hact)
+                  HMS1 eq_refl Hfp') as Hrest.
+    fold fa in Hrest. cbn [concat] in Hrest. rewrite app_nil_r, Hlenseg in Hrest.
+    replace (fa + (length body + 4))%nat with (S (S (S (S fa + length body)))) in Hrest by lia.
+    eapply act_done_star; [| exact Hext1 | exact Hrest].
+    eapply star_trans; [exact H0|]. eapply star_snoc; [exact Hst1|].
+    apply (step_label _ prog (S (S (S fa + length body)))). exact HLB. }
+  destruct (no_catch fd) eqn:Enc.
+  - (* no catch clauses: the body is in tail position *)
+    pose proof (tcase_EBlock kd fd gl k (fd_body fd) (IHti kidx kd fd gl Hk Hself) (penv ++ cenv) st rb st3 He'
+                  (body_scope TL kd fd) HFb prog (S fa) 0 (param_env (fd_params fd) 0) astk h o m vec e0 F fs
+                  Hpc HMS Hout Hem Hlen) as Hx.
+    fold body frc in Hx.
+    destruct rb as [c|ex| |].
+    + simpl in Hx. destruct Hx as [Hx | (h' & o' & m' & a & H1 & H2 & H3 & H4 & H5)]; [eapply Hpost; eauto|].
+      assert (Er : r = ROk c /\ st' = st3) by (inversion He; auto). destruct Er as [-> ->].
+      simpl. exists h', o', m', a. split; [eapply star_trans; eauto | auto].
+    + simpl in Hx. destruct Hx as (-> & [Hx | (h' & t & m' & H1 & H2 & H3)]); [eapply Hraise; eauto|].
+      assert (C12 : fd_catches fd = [] /\ fd_catch_all fd = None).
+      { unfold no_catch in Enc. destruct (fd_catches fd); [destruct (fd_catch_all fd); [discriminate | auto] | discriminate]. }
+      destruct C12 as [C1 C2]. rewrite C1, C2 in He.
+      destruct k as [|k']; [rewrite eval_items_O in Eb; discriminate|]. rewrite handlers_nil in He. inv He. simpl.
+      split; [reflexivity|]. exists h', t, m'. split; [eapply star_trans; eauto | auto].
+    + inv He. exact I.
+    + inv He. exact I.
+  - (* catch clauses: no self tail call, the body is compiled like any block *)
+    cbn [orb] in Hcat. pose proof Hcat as Hcat0. apply andb_true_iff in Hcat0. destruct Hcat0 as [_ Hnst].
+    assert (Hbd : body = compile_expr fc 0 (param_env (fd_params fd) 0) (EBlock (fd_body fd))).
+    { unfold body. apply no_self_tail_body. exact Hnst. }
+    pose proof Hpc as Hpc'. rewrite Hbd in Hpc'.
+    pose proof (case_EBlock frc fc gl k (fd_body fd) (IHi fc gl Hself) (penv ++ cenv) st rb st3 He'
+                  (body_scope TL kd fd) HFb prog 0 (param_env (fd_params fd) 0) (S fa) astk h o m Hpc' HMS Hout Hem) as Hx.
+    rewrite <- Hbd in Hx.
+    destruct rb as [c|ex| |].
+    + simpl in Hx. eapply Hpost; eauto.
+    + simpl in Hx. destruct Hx as [-> Hx]. eapply Hraise; eauto.
+    + inv He. exact I.
+    + inv He. exact I.
 Qed.
 
 Section Ind.
@@ -2495,7 +3639,7 @@ Proof.
   - destruct e; try (apply case_ECall_val; [exact I | assumption | assumption]).
     match goal with |- context [ECall (EVar ?g) _] => destruct (fsig_lookup g FS) as [n|] eqn:Hs end.
     + eapply case_ECall_top; eauto.
-    + apply case_ECall_val; assumption.
+    + apply case_ECall_var; assumption.
   - apply case_EBlock; assumption.
   - apply case_EWhile; assumption.
   - apply case_EDoWhile; assumption.
@@ -2506,43 +3650,63 @@ Qed.
 
 End Ind.
 
-Definition good_ctx (fc : fctx) : Prop := forall g, fc_self fc = Some g -> is_fname FS g = false.
-
-Lemma spec_all : forall k fc gl, good_ctx fc ->
-  expr_spec fc gl k /\ items_spec fc gl k /\ while_spec fc gl k /\ dowhile_spec fc gl k.
+Lemma spec_all : forall k,
+  (forall fc gl, good_ctx fc ->
+     expr_spec fc gl k /\ items_spec fc gl k /\ while_spec fc gl k /\ dowhile_spec fc gl k) /\
+  (forall kidx kd fd gl, nth_error (g_all G) kidx = Some (kd, fd) -> good_ctx (ctx_of TL kd fd) ->
+     tail_spec kd fd gl k /\ titems_spec kd fd gl k).
 Proof.
-  induction k as [|k IH]; intros fc gl Hfc.
-  - repeat split.
-    + intros e env st r st' He. rewrite eval_O in He. inv He. intros; exact I.
-    + intros items env st last r st' He. rewrite eval_items_O in He. inv He. intros; exact I.
-    + intros c b env st r st' He. rewrite eval_O in He. inv He. intros; exact I.
-    + intros b c env st r st' He. rewrite eval_O in He. inv He. intros; exact I.
-  - destruct (IH fc gl Hfc) as (IHe & IHi & IHw & IHd).
-    assert (IHw' : while_spec fc gl (S k)).
-    { apply while_spec_of_at. intro fr. apply while_step; assumption. }
-    assert (IHd' : dowhile_spec fc gl (S k)).
-    { apply dowhile_spec_of_at. intro fr. apply dowhile_step; assumption. }
-    assert (IHb : body_spec k).
-    { apply body_of_specs. intros fc' gl' Hfc'. apply (IH fc' gl' Hfc'). }
-    assert (IHe' : expr_spec fc gl (S k)) by (apply expr_step; assumption).
-    split; [exact IHe'|]. split; [apply items_spec_of_at; intro fr; apply items_step; assumption|].
-    split; [exact IHw' | exact IHd'].
+  induction k as [|k [IH IHT]].
+  - split.
+    + intros fc gl Hfc. repeat split.
+      * intros e env st r st' He. rewrite eval_O in He. inv He. intros; exact I.
+      * intros items env st last r st' He. rewrite eval_items_O in He. inv He. intros; exact I.
+      * intros c b env st r st' He. rewrite eval_O in He. inv He. intros; exact I.
+      * intros b c env st r st' He. rewrite eval_O in He. inv He. intros; exact I.
+    + intros kidx kd fd gl Hk Hfc. split.
+      * intros e env st r st' He. rewrite eval_O in He. inv He. intros; exact I.
+      * intros items env st last r st' He. rewrite eval_items_O in He. inv He. intros; exact I.
+  - assert (IHb : body_spec k).
+    { apply body_of_specs.
+      - intros fc' gl' Hfc'. apply (IH fc' gl' Hfc').
+      - intros kidx kd fd gl Hk Hfc'. apply (IHT kidx kd fd gl Hk Hfc'). }
+    assert (Hplain : forall fc gl, good_ctx fc ->
+              expr_spec fc gl (S k) /\ items_spec fc gl (S k) /\ while_spec fc gl (S k) /\ dowhile_spec fc gl (S k)).
+    { intros fc gl Hfc. destruct (IH fc gl Hfc) as (IHe & IHi & IHw & IHd).
+      assert (IHw' : while_spec fc gl (S k)).
+      { apply while_spec_of_at. intro fr. apply while_step; assumption. }
+      assert (IHd' : dowhile_spec fc gl (S k)).
+      { apply dowhile_spec_of_at. intro fr. apply dowhile_step; assumption. }
+      assert (IHe' : expr_spec fc gl (S k)) by (apply expr_step; assumption).
+      split; [exact IHe'|]. split; [apply items_spec_of_at; intro fr; apply items_step; assumption|].
+      split; [exact IHw' | exact IHd']. }
+    split; [exact Hplain|].
+    intros kidx kd fd gl Hk Hfc. destruct (IHT kidx kd fd gl Hk Hfc) as [IHt IHti].
+    destruct (IH (ctx_of TL kd fd) gl Hfc) as (IHe & _).
+    destruct (Hplain (ctx_of TL kd fd) gl Hfc) as (IHe' & _).
+    split.
+    + eapply tail_step; eauto.
+    + eapply titems_step; eauto.
 Qed.
 
 Lemma body_all : forall k, body_spec k.
-Proof. intros k. apply body_of_specs. intros fc gl Hfc. apply (spec_all k fc gl Hfc). Qed.
+Proof.
+  intros k. destruct (spec_all k) as [H1 H2]. apply body_of_specs.
+  - intros fc gl Hfc. apply (H1 fc gl Hfc).
+  - intros kidx kd fd gl Hk Hfc. apply (H2 kidx kd fd gl Hk Hfc).
+Qed.
 
 (* ---- compile_expr_correct on the machine with frames and closures ------------------------------- *)
 
 Theorem compile_expr_correct_frames : forall fc gl, good_ctx fc -> forall fuel e env st r st' sc,
-  eval genv fuel env st e = (r, st') -> in_F lv sc e = true ->
+  eval genv fuel env st e = (r, st') -> in_F (fc_self fc) lv sc e = true ->
   forall prog pc L ce s m,
     pcode_at prog pc (compile_expr fc L ce e) -> v_ip s = pc ->
     MS m st (v_heap s) -> v_out s = out st -> env_match_g fc (r_gp (v_fr s)) gl m env ce sc L (v_stk s) ->
     concl prog s pc (length (compile_expr fc L ce e)) m r st'.
 Proof.
   intros fc gl Hfc fuel e env st r st' sc He HF prog pc L ce s m Hc Hip HMS Hout Hem.
-  exact (proj1 (spec_all fuel fc gl Hfc) e env st r st' He sc HF prog pc L ce s m Hc Hip HMS Hout Hem).
+  exact (proj1 (proj1 (spec_all fuel) fc gl Hfc) e env st r st' He sc HF prog pc L ce s m Hc Hip HMS Hout Hem).
 Qed.
 
 End Correct.
